@@ -1,4 +1,6 @@
-(* Proofs about model/FragProg.v: loops and functions together (DESIGN 3, "FragProg"). *)
+(* Proofs about model/FragProg.v: loops and functions together (DESIGN 3, "FragProg").  The instrumented program, run under any schedule
+   of activations of loop-test, loop-body and function guards, computes what the source computes and delivers the reference stream
+   gated by the guards.  The right-hand-side layer (calls, arguments) is that of proofs/FragFunProofs.v. *)
 From Coq Require Import List ZArith NArith Bool Lia.
 Import ListNotations.
 From PyccoloV Require Import gen.PyAst gen.Ids gen.Events model.Tree model.Erase model.RwFrag model.FragSem model.FragFun model.FragProg
@@ -17,3 +19,1230 @@ Fixpoint psrc_b (s : pstmt) : bool :=
   | _ => false
   end.
 Definition psrc_t (s : pstmt) : bool := match s with PDef _ _ _ body => forallb psrc_b body | _ => psrc_b s end.
+
+Section IndP.
+Variable P : pstmt -> Prop.
+Hypothesis HExpr : forall n v, P (PExpr n v).
+Hypothesis HAssign : forall n xs v, P (PAssign n xs v).
+Hypothesis HPass : forall n, P (PPass n).
+Hypothesis HIf : forall n t b o, Forall P b -> Forall P o -> P (PIf n t b o).
+Hypothesis HWhile : forall n t b o, Forall P b -> Forall P o -> P (PWhile n t b o).
+Hypothesis HBreak : forall n, P (PBreak n).
+Hypothesis HContinue : forall n, P (PContinue n).
+Hypothesis HReturn : forall n v, P (PReturn n v).
+Hypothesis HDef : forall n name ps body, Forall P body -> P (PDef n name ps body).
+Hypothesis HEmit : forall e n v g, P (PEmit e n v g).
+Hypothesis HBefore : forall n tb own, Forall P tb -> Forall P own -> P (PBefore n tb own).
+Hypothesis HWhileG : forall n g t' t b o, Forall P b -> Forall P o -> P (PWhileG n g t' t b o).
+Hypothesis HGuardIf : forall g before i p, Forall P i -> Forall P p -> P (PGuardIf g before i p).
+Hypothesis HTry : forall b fin, Forall P b -> Forall P fin -> P (PTry b fin).
+Hypothesis HNameTry : forall b p, Forall P b -> Forall P p -> P (PNameTry b p).
+Fixpoint pstmt_ind' (s : pstmt) : P s :=
+  let go := fix go (u : list pstmt) : Forall P u := match u with [] => Forall_nil P | x :: u' => Forall_cons x (pstmt_ind' x) (go u') end in
+  match s with
+  | PExpr n v => HExpr n v
+  | PAssign n xs v => HAssign n xs v
+  | PPass n => HPass n
+  | PIf n t b o => HIf n t b o (go b) (go o)
+  | PWhile n t b o => HWhile n t b o (go b) (go o)
+  | PBreak n => HBreak n
+  | PContinue n => HContinue n
+  | PReturn n v => HReturn n v
+  | PDef n name ps body => HDef n name ps body (go body)
+  | PEmit e n v g => HEmit e n v g
+  | PBefore n tb own => HBefore n tb own (go tb) (go own)
+  | PWhileG n g t' t b o => HWhileG n g t' t b o (go b) (go o)
+  | PGuardIf g before i p => HGuardIf g before i p (go i) (go p)
+  | PTry b fin => HTry b fin (go b) (go fin)
+  | PNameTry b p => HNameTry b p (go b) (go p)
+  end.
+End IndP.
+
+Section ProgProofs.
+Variable binop : N -> val -> val -> res val.
+Variable cmpop : N -> val -> val -> res bool.
+Variable unop : N -> val -> res val.
+Variable truth : val -> bool.
+Variable cval : scalar -> val.
+Variable is_and : N -> bool.
+Variable c : rcfg.
+Variable pol : list entry -> guard -> bool.
+Variable fuel : nat.
+Variable ge : bool.
+
+Notation eval_e := (eval_e binop cmpop unop truth cval is_and).
+Notation ref_e := (ref_e binop cmpop unop truth cval is_and).
+Notation eval_r := (eval_r binop cmpop unop truth cval is_and).
+Notation ref_r := (ref_r binop cmpop unop truth cval is_and).
+Notation pexec_s := (pexec_s binop cmpop unop truth cval is_and c pol fuel).
+Notation pexec_l := (pexec_l binop cmpop unop truth cval is_and c pol fuel).
+Notation pref_s := (pref_s binop cmpop unop truth cval is_and c pol fuel ge).
+Notation pref_l := (pref_l binop cmpop unop truth cval is_and c pol fuel ge).
+Notation pgon := (pgon c pol).
+Notation fl := (filter_log c).
+Notation eval_src := (FragFunProofs.eval_src binop cmpop unop truth cval is_and).
+
+Lemma fl_app a b : fl (a ++ b) = fl a ++ fl b.
+Proof. apply filter_app. Qed.
+Lemma fl_cons e n v l : fl ((e, n, v) :: l) = (if sub c e then [(e, n, v)] else []) ++ fl l.
+Proof. unfold filter_log. cbn [filter fst]. destruct (sub c e); reflexivity. Qed.
+Lemma fl_nil : fl [] = [].
+Proof. reflexivity. Qed.
+Lemma fl_single e n v : fl [(e, n, v)] = if sub c e then [(e, n, v)] else [].
+Proof. unfold filter_log. cbn [filter fst]. destruct (sub c e); reflexivity. Qed.
+Lemma fl_idem l : fl (fl l) = fl l.
+Proof. apply FragFunProofs.fl_idem. Qed.
+Lemma fl_if (b : bool) x y : fl (if b then x else y) = if b then fl x else fl y.
+Proof. destruct b; reflexivity. Qed.
+Lemma fl_emitted_r e n q : fl (emitted_r e n q) = if sub c e then emitted_r e n q else [].
+Proof. apply FragFunProofs.fl_emitted_r. Qed.
+Lemma fl_emitted e n q : fl (emitted e n q) = if sub c e then emitted e n q else [].
+Proof. apply FragFunProofs.fl_emitted. Qed.
+Lemma pgon_fl p p' g : fl p = fl p' -> pgon p g = pgon p' g.
+Proof. unfold FragProg.pgon. intros ->. reflexivity. Qed.
+Lemma fl_pre p p' a b : fl p = fl p' -> fl a = fl b -> fl (p ++ a) = fl (p' ++ b).
+Proof. intros H1 H2. rewrite !fl_app, H1, H2. reflexivity. Qed.
+Lemma ge_cases : ge = true \/ ge = false.
+Proof. destruct ge; auto. Qed.
+
+Ltac flags := repeat match goal with |- context [sub c ?e] => destruct (sub c e) end.
+Ltac norm := cbn [app emitted emitted_r fst snd]; repeat first [rewrite fl_app | rewrite fl_cons | rewrite fl_nil | rewrite fl_emitted | rewrite fl_emitted_r | rewrite fl_idem | rewrite fl_if];
+             rewrite ?app_nil_r; cbn [app emitted emitted_r fst snd].
+Ltac fin := norm; flags; cbn [app emitted emitted_r fst snd]; rewrite ?app_nil_r; repeat rewrite <- app_assoc; cbn [app]; repeat rewrite <- app_assoc; reflexivity.
+
+Section WithCalls.
+Variable call : callT.
+Variable callr : callR.
+Hypothesis call_ok : call_sim c call callr.
+
+Definition Rloud := rhs_loud binop cmpop unop truth cval is_and c call callr call_ok.
+Definition Rquiet := rhs_quiet binop cmpop unop truth cval is_and c call callr call_ok.
+Definition EwrapR := FragFunProofs.eval_wrapR binop cmpop unop truth cval is_and c call.
+Definition EdefR := FragFunProofs.eval_defR binop cmpop unop truth cval is_and c call.
+
+(* ================================================================ statements: unfolding *)
+Notation X_s := (pexec_s call).
+Notation X_l := (pexec_l call).
+Notation R_s := (pref_s callr).
+Notation R_l := (pref_l callr).
+
+Definition ploop (sc : scope) (glob : env) (test : env -> list entry -> res val * list entry) (b o : list pstmt) :=
+  fix loop (f : nat) (r : env) (saved : val) (pre : list entry) {struct f} : pres :=
+    match f with
+    | O => {| p_exc := Some (PO FFuel); p_env := r; p_saved := saved; p_log := [] |}
+    | S f' =>
+        let '(q, lt) := test r pre in
+        match q with
+        | Err e => {| p_exc := Some (PO (FX e)); p_env := r; p_saved := saved; p_log := lt |}
+        | Ok vt =>
+            if truth vt then
+              let a := X_l sc glob b r saved (pre ++ lt) in
+              match p_exc a with
+              | Some PBrk => {| p_exc := None; p_env := p_env a; p_saved := p_saved a; p_log := lt ++ p_log a |}
+              | None | Some PCnt =>
+                  let z := loop f' (p_env a) (p_saved a) (pre ++ lt ++ p_log a) in
+                  {| p_exc := p_exc z; p_env := p_env z; p_saved := p_saved z; p_log := lt ++ p_log a ++ p_log z |}
+              | Some _ => {| p_exc := p_exc a; p_env := p_env a; p_saved := p_saved a; p_log := lt ++ p_log a |}
+              end
+            else let a := X_l sc glob o r saved (pre ++ lt) in
+                 {| p_exc := p_exc a; p_env := p_env a; p_saved := p_saved a; p_log := lt ++ p_log a |}
+        end
+    end.
+Lemma pexec_PWhile sc glob n t b o r sv pre :
+  X_s sc glob (PWhile n t b o) r sv pre = ploop sc glob (fun r _ => eval_e t (look sc glob r)) b o fuel r sv pre.
+Proof. reflexivity. Qed.
+Lemma pexec_PWhileG sc glob n g t' t b o r sv pre :
+  X_s sc glob (PWhileG n g t' t b o) r sv pre =
+  ploop sc glob (fun r pre => if pgon pre g then eval_e t' (look sc glob r) else eval_e t (look sc glob r)) b o fuel r sv pre.
+Proof. reflexivity. Qed.
+Lemma pexec_l_cons sc glob x u r sv pre : X_l sc glob (x :: u) r sv pre = pseq (X_s sc glob x r sv pre) (X_l sc glob u) pre.
+Proof. reflexivity. Qed.
+Lemma pexec_PIf sc glob n t b o r sv pre :
+  X_s sc glob (PIf n t b o) r sv pre =
+  let '(q, l) := eval_e t (look sc glob r) in
+  match q with
+  | Ok vt => let a := X_l sc glob (if truth vt then b else o) r sv (pre ++ l) in
+             {| p_exc := p_exc a; p_env := p_env a; p_saved := p_saved a; p_log := l ++ p_log a |}
+  | Err e => {| p_exc := Some (PO (FX e)); p_env := r; p_saved := sv; p_log := l |}
+  end.
+Proof. reflexivity. Qed.
+Lemma pexec_PBefore sc glob n tb own r sv pre :
+  X_s sc glob (PBefore n tb own) r sv pre =
+  let a := X_l sc glob own r sv (pre ++ [(E_before_stmt, n, Some VNone)]) in
+  {| p_exc := p_exc a; p_env := p_env a; p_saved := p_saved a; p_log := (E_before_stmt, n, Some VNone) :: p_log a |}.
+Proof. reflexivity. Qed.
+Lemma pexec_PGuardIf sc glob g before i p r sv pre :
+  X_s sc glob (PGuardIf g before i p) r sv pre =
+  if pgon pre g then
+    match before with
+    | Some n => let a := X_l sc glob i r sv (pre ++ [(before_event g, n, Some (cval (SBool true)))]) in
+                {| p_exc := p_exc a; p_env := p_env a; p_saved := p_saved a; p_log := (before_event g, n, Some (cval (SBool true))) :: p_log a |}
+    | None => X_l sc glob i r sv pre
+    end
+  else X_l sc glob p r sv pre.
+Proof. reflexivity. Qed.
+Lemma pexec_PTry sc glob b fin r sv pre :
+  X_s sc glob (PTry b fin) r sv pre =
+  let a := X_l sc glob b r sv pre in
+  let z := X_l sc glob fin (p_env a) (p_saved a) (pre ++ p_log a) in
+  {| p_exc := match p_exc z with Some x => Some x | None => p_exc a end; p_env := p_env z; p_saved := p_saved z; p_log := p_log a ++ p_log z |}.
+Proof. reflexivity. Qed.
+Lemma pexec_PNameTry sc glob b p r sv pre : X_s sc glob (PNameTry b p) r sv pre = X_l sc glob b r sv pre.
+Proof. reflexivity. Qed.
+
+Lemma pexec_l_single sc glob x r sv pre : X_l sc glob [x] r sv pre = X_s sc glob x r sv pre.
+Proof. rewrite pexec_l_cons. unfold pseq. cbn. destruct (X_s sc glob x r sv pre) as [[e|] r' sv' l]; cbn; rewrite ?app_nil_r; reflexivity. Qed.
+Lemma pexec_l_app sc glob u w : forall r sv pre, X_l sc glob (u ++ w) r sv pre = pseq (X_l sc glob u r sv pre) (X_l sc glob w) pre.
+Proof.
+  induction u as [|x u IH]; intros r sv pre.
+  - cbn [app]. unfold pseq. cbn. rewrite app_nil_r. destruct (X_l sc glob w r sv pre); reflexivity.
+  - cbn [app]. rewrite !pexec_l_cons. unfold pseq at 1 3. destruct (p_exc (X_s sc glob x r sv pre)) eqn:E.
+    + unfold pseq. rewrite E. reflexivity.
+    + rewrite IH. unfold pseq. cbn [p_exc p_env p_saved p_log].
+      destruct (p_exc (X_l sc glob u (p_env (X_s sc glob x r sv pre)) (p_saved (X_s sc glob x r sv pre)) (pre ++ p_log (X_s sc glob x r sv pre)))) eqn:E2;
+        cbn [p_exc p_env p_saved p_log]; rewrite ?E2; [reflexivity|].
+      rewrite !app_assoc. reflexivity.
+Qed.
+
+(* the reference, statement by statement *)
+Definition ebw (n : N) : entry := (E_before_while_loop_body, n, Some (cval (SBool true))).
+Definition eaw (n : N) : entry := (E_after_while_loop_iter, n, Some VNone).
+Definition prloop (quiet : bool) (sc : scope) (glob : env) (n : N) (t : texpr) (b o : list pstmt) :=
+  fix loop (f : nat) (r : env) (pre : list entry) {struct f} : prres :=
+    match f with
+    | O => {| pr_exc := Some (PO FFuel); pr_env := r; pr_log := [] |}
+    | S f' =>
+        let '(q, l) := ref_e t (look sc glob r) in
+        let loud_t := negb quiet && (negb ge || pgon pre (GTest n)) in
+        let lt := if loud_t then l ++ emitted E_after_while_test n q else [] in
+        match q with
+        | Err e => {| pr_exc := Some (PO (FX e)); pr_env := r; pr_log := lt |}
+        | Ok vt =>
+            if truth vt then
+              let loud_b := negb quiet && (negb ge || pgon (pre ++ lt) (GBody n)) in
+              let lb := if loud_b then [ebw n] else [] in
+              let a := R_l (negb loud_b) false sc glob b r (pre ++ lt ++ lb) in
+              let la := if loud_b then [eaw n] else [] in
+              match pr_exc a with
+              | Some PBrk => {| pr_exc := None; pr_env := pr_env a; pr_log := lt ++ lb ++ pr_log a ++ la |}
+              | None | Some PCnt =>
+                  let z := loop f' (pr_env a) (pre ++ lt ++ lb ++ pr_log a ++ la) in
+                  {| pr_exc := pr_exc z; pr_env := pr_env z; pr_log := lt ++ lb ++ pr_log a ++ la ++ pr_log z |}
+              | Some _ => {| pr_exc := pr_exc a; pr_env := pr_env a; pr_log := lt ++ lb ++ pr_log a ++ la |}
+              end
+            else let a := R_l quiet false sc glob o r (pre ++ lt) in
+                 {| pr_exc := pr_exc a; pr_env := pr_env a; pr_log := lt ++ pr_log a |}
+        end
+    end.
+
+Definition pbody_of (quiet : bool) (sc : scope) (glob : env) (s : pstmt) (r : env) (pre0 : list entry) : option pexc * env * list entry * val :=
+  let say := fsay quiet in
+  let n := pid s in
+  match s with
+  | PExpr _ v => let '(q, l) := ref_r callr quiet (look sc glob r) (globs sc glob r) v pre0 in
+                 (pexc_of q, r, l ++ say (emitted_r E_after_expr_stmt n q), match q with ROk x => x | RErr _ => VNone end)
+  | PAssign _ xs v =>
+      let '(q, l) := ref_r callr quiet (look sc glob r) (globs sc glob r) v (pre0 ++ say [(E_before_assign_rhs, rid v, None)]) in
+      (pexc_of q, match q with ROk x => fold_left (fun r' y => upd r' y x) xs r | RErr _ => r end,
+       say [(E_before_assign_rhs, rid v, None)] ++ l ++ say (emitted_r E_after_assign_rhs (rid v) q), VNone)
+  | PPass _ => (None, r, [], VNone)
+  | PBreak _ => (Some PBrk, r, [], VNone)
+  | PContinue _ => (Some PCnt, r, [], VNone)
+  | PIf _ t b o =>
+      let '(q, l) := ref_e t (look sc glob r) in
+      match q with
+      | Ok vt => let l1 := say (l ++ [(E_after_if_test, n, Some vt)]) in
+                 let a := R_l quiet false sc glob (if truth vt then b else o) r (pre0 ++ l1) in
+                 (pr_exc a, pr_env a, l1 ++ pr_log a, VNone)
+      | Err e => (Some (PO (FX e)), r, say l, VNone)
+      end
+  | PWhile _ t b o => let z := prloop quiet sc glob n t b o fuel r pre0 in (pr_exc z, pr_env z, pr_log z, VNone)
+  | PReturn _ None => (Some (PO (FRet VNone)), r, [], VNone)
+  | PReturn _ (Some v) =>
+      let '(q, l) := ref_r callr quiet (look sc glob r) (globs sc glob r) v (pre0 ++ say [(E_before_return, rid v, None)]) in
+      (Some (PO (match q with ROk x => FRet x | RErr e => e end)), r,
+       say [(E_before_return, rid v, None)] ++ l ++ say (emitted_r E_after_return (rid v) q), VNone)
+  | PDef n name _ _ => (None, upd r name (VFun n), [], VNone)
+  | _ => (Some (PO (FX ETypeError)), r, [], VNone)
+  end.
+
+Lemma pref_unfold quiet m sc glob s r pre : R_s quiet m sc glob s r pre =
+  let '(x, r', l, v) := pbody_of quiet sc glob s r (pre ++ fsay quiet [(E_before_stmt, pid s, Some VNone)]) in
+  let after_value := if m then v else VNone in
+  {| pr_exc := x; pr_env := r';
+     pr_log := fsay quiet [(E_before_stmt, pid s, Some VNone)] ++ l ++
+               match x with
+               | Some _ => []
+               | None => fsay quiet ((E_after_stmt, pid s, Some after_value) :: (if m then [(E_after_module_stmt, pid s, Some after_value)] else []))
+               end |}.
+Proof. destruct s; reflexivity. Qed.
+
+Lemma pref_l_cons quiet m sc glob x u r pre :
+  R_l quiet m sc glob (x :: u) r pre = prseq (R_s quiet m sc glob x r pre) (R_l quiet m sc glob u) pre.
+Proof. reflexivity. Qed.
+
+Definition psim (a : pres) (b : prres) : Prop := p_exc a = pr_exc b /\ p_env a = pr_env b /\ fl (p_log a) = fl (pr_log b).
+
+(* ================================================================ the pristine copies: source semantics, only the callees speak.
+   g' = whether nested loops of the copy keep a guarded test (the copy of a loop body, `ppr ge`) or not (the copy of a function body: `ppr false` = identity) *)
+Definition pquiet_ok (g' : bool) (s : pstmt) : Prop := psrc_b s = true -> forall sc glob r sv p p', fl p = fl p' ->
+  psim (X_s sc glob (ppr g' s) r sv p) (R_s true false sc glob s r p').
+
+Lemma pquiet_list g' u : Forall (pquiet_ok g') u -> forallb psrc_b u = true -> forall sc glob r sv p p', fl p = fl p' ->
+  psim (X_l sc glob (map (ppr g') u) r sv p) (R_l true false sc glob u r p').
+Proof.
+  induction 1 as [|x u Hx _ IH]; intros Hs sc glob r sv p p' Hp.
+  - repeat split.
+  - cbn [forallb] in Hs. apply andb_true_iff in Hs as [Hsx Hs]. cbn [map]. rewrite pexec_l_cons, pref_l_cons.
+    destruct (Hx Hsx sc glob r sv p p' Hp) as (E1 & E2 & E3). unfold pseq, prseq. rewrite E1.
+    destruct (pr_exc (R_s true false sc glob x r p')) eqn:Ex.
+    + unfold psim. rewrite Ex. repeat split; assumption.
+    + destruct (IH Hs sc glob (p_env (X_s sc glob (ppr g' x) r sv p)) (p_saved (X_s sc glob (ppr g' x) r sv p))
+                  (p ++ p_log (X_s sc glob (ppr g' x) r sv p)) (p' ++ pr_log (R_s true false sc glob x r p')) (fl_pre _ _ _ _ Hp E3)) as (F1 & F2 & F3).
+      rewrite E2 in F1, F2, F3. unfold psim. cbn [p_exc p_env p_log pr_exc pr_env pr_log]. rewrite E2. split; [exact F1|split; [exact F2|]].
+      rewrite !fl_app, E3, F3. reflexivity.
+Qed.
+
+Lemma pquiet_loop g' sc glob n t b o (test : env -> list entry -> res val * list entry) :
+  (forall r pre, test r pre = (fst (ref_e t (look sc glob r)), [])) ->
+  Forall (pquiet_ok g') b -> Forall (pquiet_ok g') o -> forallb psrc_b b = true -> forallb psrc_b o = true ->
+  forall f r sv p p', fl p = fl p' ->
+  psim (ploop sc glob test (map (ppr g') b) (map (ppr g') o) f r sv p) (prloop true sc glob n t b o f r p').
+Proof.
+  intros Htest Fb Fo Hb Ho. induction f as [|f IH]; intros r sv p p' Hp.
+  - repeat split.
+  - cbn [ploop prloop]. rewrite Htest. destruct (ref_e t (look sc glob r)) as [[vt|e] l]; cbn [fst negb andb]; [|repeat split].
+    destruct (truth vt).
+    + assert (Hq : fl (p ++ []) = fl (p' ++ [] ++ [])) by (cbn [app]; rewrite !app_nil_r; exact Hp).
+      destruct (pquiet_list g' b Fb Hb sc glob r sv _ _ Hq) as (A1 & A2 & A3).
+      set (A := X_l sc glob (map (ppr g') b) r sv (p ++ [])) in *.
+      set (B := R_l true false sc glob b r (p' ++ [] ++ [])) in *.
+      rewrite A1.
+      assert (Hcont : psim (let z := ploop sc glob test (map (ppr g') b) (map (ppr g') o) f (p_env A) (p_saved A) (p ++ [] ++ p_log A) in
+                            {| p_exc := p_exc z; p_env := p_env z; p_saved := p_saved z; p_log := [] ++ p_log A ++ p_log z |})
+                           (let z := prloop true sc glob n t b o f (pr_env B) (p' ++ [] ++ [] ++ pr_log B ++ []) in
+                            {| pr_exc := pr_exc z; pr_env := pr_env z; pr_log := [] ++ [] ++ pr_log B ++ [] ++ pr_log z |})).
+      { cbv zeta. assert (Hn : fl (p ++ [] ++ p_log A) = fl (p' ++ [] ++ [] ++ pr_log B ++ [])).
+        { cbn [app]. rewrite app_nil_r. apply fl_pre; assumption. }
+        destruct (IH (p_env A) (p_saved A) _ _ Hn) as (J1 & J2 & J3). rewrite A2 in J1, J2, J3.
+        unfold psim. cbn [p_exc p_env p_log pr_exc pr_env pr_log]. rewrite A2. repeat split; try assumption.
+        rewrite !fl_app, !fl_nil, A3, J3. reflexivity. }
+      destruct (pr_exc B) as [[x| |]|] eqn:Ex; try exact Hcont;
+        unfold psim; cbn [p_exc p_env p_log pr_exc pr_env pr_log app]; repeat split; try assumption; try reflexivity;
+        rewrite ?app_nil_r; exact A3.
+    + assert (Hq : fl (p ++ []) = fl (p' ++ [])) by (rewrite !app_nil_r; exact Hp).
+      destruct (pquiet_list g' o Fo Ho sc glob r sv _ _ Hq) as (A1 & A2 & A3).
+      unfold psim. cbn [p_exc p_env p_log pr_exc pr_env pr_log app]. repeat split; assumption.
+Qed.
+
+Theorem pquiet_stmt g' : forall s, pquiet_ok g' s.
+Proof.
+  induction s using pstmt_ind'; intros Hs sc glob r sv pa pb Hp; try discriminate Hs; cbn [psrc_b] in Hs; rewrite pref_unfold; cbn [fsay app pid pbody_of ppr].
+  - (* expression statement *)
+    assert (Hp0 : fl pa = fl (pb ++ [])) by (rewrite app_nil_r; exact Hp).
+    destruct (Rquiet v Hs (look sc glob r) (globs sc glob r) sv pa _ Hp0) as [A1 A2]. cbn [FragProg.pexec_s].
+    destruct (eval_r call _ _ v sv pa) as [[q sv'] l]. destruct (ref_r callr true _ _ v _) as [q' l']. cbn [fst snd] in A1, A2. subst q'.
+    unfold psim. cbn [p_exc p_env p_log pr_exc pr_env pr_log]. repeat split. rewrite !app_nil_r. destruct q; cbn [pexc_of]; rewrite ?app_nil_r; exact A2.
+  - (* assignment *)
+    assert (Hp0 : fl pa = fl ((pb ++ []) ++ [])) by (rewrite !app_nil_r; exact Hp).
+    destruct (Rquiet v Hs (look sc glob r) (globs sc glob r) sv pa _ Hp0) as [A1 A2]. cbn [FragProg.pexec_s].
+    destruct (eval_r call _ _ v sv pa) as [[q sv'] l]. destruct (ref_r callr true _ _ v _) as [q' l']. cbn [fst snd] in A1, A2. subst q'.
+    unfold psim. destruct q; cbn [p_exc p_env p_log pr_exc pr_env pr_log pexc_of app]; rewrite ?app_nil_r; repeat split; exact A2.
+  - repeat split.
+  - (* if *)
+    apply andb_true_iff in Hs as [Hs Ho]. apply andb_true_iff in Hs as [Ht Hb].
+    rewrite pexec_PIf, (eval_src t _ Ht). destruct (ref_e t (look sc glob r)) as [[vt|e] l]; cbn [fst snd].
+    + unfold psim. cbn [p_exc p_env p_log pr_exc pr_env pr_log app]. rewrite ?app_nil_r.
+      assert (HB : psim (X_l sc glob (if truth vt then map (ppr g') b else map (ppr g') o) r sv pa) (R_l true false sc glob (if truth vt then b else o) r pb)).
+      { destruct (truth vt); [apply (pquiet_list g' b H Hb)|apply (pquiet_list g' o H0 Ho)]; exact Hp. }
+      destruct HB as (B1 & B2 & B3).
+      destruct (pr_exc (R_l true false sc glob (if truth vt then b else o) r pb)); repeat split; try assumption; rewrite ?app_nil_r; exact B3.
+    + repeat split.
+  - (* while *)
+    apply andb_true_iff in Hs as [Hs Ho]. apply andb_true_iff in Hs as [Ht Hb].
+    unfold psim. cbn [p_exc p_env p_log pr_exc pr_env pr_log app]. rewrite ?app_nil_r.
+    assert (Q : psim (X_s sc glob (if g' then PWhileG n (GTest n) t t (map (ppr g') b) (map (ppr g') o) else PWhile n t (map (ppr g') b) (map (ppr g') o)) r sv pa)
+                     (prloop true sc glob n t b o fuel r pb)).
+    { destruct g'; [rewrite pexec_PWhileG|rewrite pexec_PWhile]; apply pquiet_loop; try assumption; intros r0 pre0; rewrite ?(eval_src t _ Ht);
+        try reflexivity. destruct (pgon pre0 (GTest n)); reflexivity. }
+    destruct Q as (A1 & A2 & A3).
+    destruct (pr_exc (prloop true sc glob n t b o fuel r pb)); repeat split; try assumption; rewrite ?app_nil_r; exact A3.
+  - repeat split.
+  - repeat split.
+  - (* return *)
+    destruct v as [v|]; [|repeat split].
+    assert (Hp0 : fl pa = fl ((pb ++ []) ++ [])) by (rewrite !app_nil_r; exact Hp).
+    destruct (Rquiet v Hs (look sc glob r) (globs sc glob r) sv pa _ Hp0) as [A1 A2]. cbn [FragProg.pexec_s].
+    destruct (eval_r call _ _ v sv pa) as [[q sv'] l]. destruct (ref_r callr true _ _ v _) as [q' l']. cbn [fst snd] in A1, A2. subst q'.
+    unfold psim. cbn [p_exc p_env p_log pr_exc pr_env pr_log app]. rewrite !app_nil_r. repeat split. exact A2.
+Qed.
+
+Lemma pquiet_all g' u : Forall (pquiet_ok g') u.
+Proof. apply Forall_forall. intros s _. apply pquiet_stmt. Qed.
+
+Lemma ppr_false_list (u : list pstmt) : Forall (fun s => ppr false s = s) u -> map (ppr false) u = u.
+Proof. induction 1 as [|x u Hx _ IH]; [reflexivity|]. cbn [map]. rewrite Hx, IH. reflexivity. Qed.
+Lemma ppr_false : forall s, ppr false s = s.
+Proof.
+  induction s using pstmt_ind'; cbn [ppr]; try reflexivity.
+  - rewrite (ppr_false_list b H), (ppr_false_list o H0). reflexivity.
+  - rewrite (ppr_false_list b H), (ppr_false_list o H0). reflexivity.
+Qed.
+Lemma ppr_false_map u : map (ppr false) u = u.
+Proof. apply ppr_false_list. apply Forall_forall. intros s _. apply ppr_false. Qed.
+
+(* ================================================================ the instrumented statements against the loud reference *)
+Definition ploud_ok (s : pstmt) : Prop := psrc_t s = true -> forall m sc glob r sv p p', fl p = fl p' ->
+  psim (X_l sc glob (pis c ge m s) r sv p) (R_s false m sc glob s r p').
+
+Lemma ploud_list u : Forall ploud_ok u -> forallb psrc_t u = true -> forall m sc glob r sv p p', fl p = fl p' ->
+  psim (X_l sc glob (flat_map (pis c ge m) u) r sv p) (R_l false m sc glob u r p').
+Proof.
+  induction 1 as [|x u Hx _ IH]; intros Hs m sc glob r sv p p' Hp.
+  - repeat split.
+  - cbn [forallb] in Hs. apply andb_true_iff in Hs as [Hsx Hs].
+    cbn [flat_map]. rewrite pexec_l_app, pref_l_cons.
+    destruct (Hx Hsx m sc glob r sv p p' Hp) as (E1 & E2 & E3). unfold pseq, prseq. rewrite E1.
+    destruct (pr_exc (R_s false m sc glob x r p')) eqn:Ex.
+    + unfold psim. rewrite Ex. repeat split; assumption.
+    + destruct (IH Hs m sc glob (p_env (X_l sc glob (pis c ge m x) r sv p)) (p_saved (X_l sc glob (pis c ge m x) r sv p))
+                  (p ++ p_log (X_l sc glob (pis c ge m x) r sv p)) (p' ++ pr_log (R_s false m sc glob x r p')) (fl_pre _ _ _ _ Hp E3)) as (F1 & F2 & F3).
+      rewrite E2 in F1, F2, F3. unfold psim. cbn [p_exc p_env p_log pr_exc pr_env pr_log]. rewrite E2. split; [exact F1|split; [exact F2|]].
+      rewrite !fl_app, E3, F3. reflexivity.
+Qed.
+
+Lemma psrc_b_t u : forallb psrc_b u = true -> forallb psrc_t u = true.
+Proof.
+  induction u as [|x u IH]; [reflexivity|]. cbn [forallb]. intros H. apply andb_true_iff in H as [Hx Hu]. rewrite (IH Hu), andb_true_r.
+  destruct x; try exact Hx; discriminate Hx.
+Qed.
+
+
+(* ---- one loop, given its sub-statements *)
+Section OneLoop.
+Variables (n : N) (t : texpr) (b o : list pstmt).
+Hypothesis Ht : src_e t = true.
+Hypothesis Hb : forallb psrc_b b = true.
+Hypothesis Ho : forallb psrc_b o = true.
+Hypothesis Fb : Forall ploud_ok b.
+Hypothesis Fo : Forall ploud_ok o.
+Variables (sc : scope) (glob : env).
+
+Definition W_t' := wrap c E_after_while_test n (ie c t).
+Definition W_b' := flat_map (pis c ge false) b.
+Definition W_o' := flat_map (pis c ge false) o.
+Definition W_after := if sub c E_after_while_loop_iter
+                      then [PTry W_b' [PEmit E_after_while_loop_iter n None (Some (if ge then Some (GBody n) else None))]] else W_b'.
+Definition W_body := if ge then [PGuardIf (GBody n) (if sub c E_before_while_loop_body then Some n else None) W_after (map (ppr ge) b)]
+                     else (if sub c E_before_while_loop_body then [PEmit E_before_while_loop_body n (Some (RExp (XConst 0 (SBool true)))) None] else []) ++ W_after.
+Definition W_test := fun (r : env) (pre : list entry) =>
+  if ge then (if pgon pre (GTest n) then eval_e W_t' (look sc glob r) else eval_e t (look sc glob r)) else eval_e W_t' (look sc glob r).
+
+Lemma test_sim r p p' : fl p = fl p' ->
+  fst (W_test r p) = fst (ref_e t (look sc glob r)) /\
+  fl (snd (W_test r p)) = fl (if negb ge || pgon p' (GTest n) then snd (ref_e t (look sc glob r)) ++ emitted E_after_while_test n (fst (ref_e t (look sc glob r))) else []).
+Proof.
+  intros Hp. unfold W_test, W_t'. rewrite eval_wrap, (eval_ie binop cmpop unop truth cval is_and c t Ht), (eval_src t _ Ht), (pgon_fl p p' _ Hp).
+  destruct (ref_e t (look sc glob r)) as [q l]. cbn [fst snd].
+  destruct ge_cases as [E|E]; rewrite E; cbn [negb orb]; [destruct (pgon p' (GTest n))|]; cbn [fst snd]; split; try reflexivity;
+    rewrite ?fl_app, ?fl_idem, ?fl_if, ?fl_emitted, ?fl_nil; destruct (sub c E_after_while_test); reflexivity.
+Qed.
+
+Lemma after_sim r sv q q' : fl q = fl q' ->
+  let A := X_l sc glob W_after r sv q in
+  let a := R_l false false sc glob b r q' in
+  p_exc A = pr_exc a /\ p_env A = pr_env a /\ fl (p_log A) = fl (pr_log a ++ [eaw n]).
+Proof.
+  intros Hq. cbv zeta. destruct (ploud_list b Fb (psrc_b_t b Hb) false sc glob r sv q q' Hq) as (E1 & E2 & E3). fold W_b' in E1, E2, E3.
+  unfold W_after. destruct (sub c E_after_while_loop_iter) eqn:Ea.
+  - rewrite pexec_l_single, pexec_PTry. cbv zeta. rewrite pexec_l_single. cbn [FragProg.pexec_s p_exc p_env p_saved p_log].
+    repeat split; try assumption. rewrite !fl_app, E3. reflexivity.
+  - repeat split; try assumption. rewrite fl_app, E3. unfold eaw. rewrite fl_single, Ea, app_nil_r. reflexivity.
+Qed.
+
+Lemma iter_sim r sv p p' : fl p = fl p' ->
+  let LB := negb ge || pgon p' (GBody n) in
+  let lb := if LB then [ebw n] else [] in
+  let A := X_l sc glob W_body r sv p in
+  let a := R_l (negb LB) false sc glob b r (p' ++ lb) in
+  let la := if LB then [eaw n] else [] in
+  p_exc A = pr_exc a /\ p_env A = pr_env a /\ fl (p_log A) = fl (lb ++ pr_log a ++ la).
+Proof.
+  intros Hp. cbv zeta. unfold W_body.
+  destruct ge_cases as [E|E].
+  - replace (if ge then [PGuardIf (GBody n) (if sub c E_before_while_loop_body then Some n else None) W_after (map (ppr ge) b)]
+             else (if sub c E_before_while_loop_body then [PEmit E_before_while_loop_body n (Some (RExp (XConst 0 (SBool true)))) None] else []) ++ W_after)
+      with [PGuardIf (GBody n) (if sub c E_before_while_loop_body then Some n else None) W_after (map (ppr ge) b)] by (rewrite E; reflexivity).
+    replace (negb ge) with false by (rewrite E; reflexivity). cbn [orb].
+    rewrite pexec_l_single, pexec_PGuardIf, (pgon_fl p p' _ Hp). cbn [before_event].
+    destruct (pgon p' (GBody n)) eqn:G; cbn [negb].
+    + destruct (sub c E_before_while_loop_body) eqn:Bf.
+      * cbv zeta. match goal with |- context [X_l sc glob W_after r sv ?q] =>
+          assert (Hq : fl q = fl (p' ++ [ebw n])) by (apply fl_pre; [exact Hp|reflexivity]);
+          destruct (after_sim r sv q _ Hq) as (A1 & A2 & A3) end.
+        cbn [p_exc p_env p_log]. repeat split; try assumption.
+        cbn [app]. rewrite (fl_cons E_before_while_loop_body), A3. unfold ebw. rewrite (fl_cons E_before_while_loop_body). reflexivity.
+      * assert (Hq : fl p = fl (p' ++ [ebw n])) by (rewrite fl_app, Hp; unfold ebw; rewrite fl_single, Bf, app_nil_r; reflexivity).
+        destruct (after_sim r sv _ _ Hq) as (A1 & A2 & A3). unfold ebw, eaw in *. repeat split; try assumption.
+        rewrite A3. cbn [app]. rewrite (fl_cons E_before_while_loop_body), Bf. reflexivity.
+    + assert (Hq : fl p = fl (p' ++ [])) by (rewrite app_nil_r; exact Hp).
+      destruct (pquiet_list ge b (pquiet_all ge b) Hb sc glob r sv p _ Hq) as (Q1 & Q2 & Q3).
+      repeat split; try assumption. cbn [app]. rewrite app_nil_r. exact Q3.
+  - replace (if ge then [PGuardIf (GBody n) (if sub c E_before_while_loop_body then Some n else None) W_after (map (ppr ge) b)]
+             else (if sub c E_before_while_loop_body then [PEmit E_before_while_loop_body n (Some (RExp (XConst 0 (SBool true)))) None] else []) ++ W_after)
+      with ((if sub c E_before_while_loop_body then [PEmit E_before_while_loop_body n (Some (RExp (XConst 0 (SBool true)))) None] else []) ++ W_after) by (rewrite E; reflexivity).
+    replace (negb ge) with true by (rewrite E; reflexivity). cbn [orb negb].
+    destruct (sub c E_before_while_loop_body) eqn:Bf.
+    + cbn [app]. rewrite pexec_l_cons. unfold pseq. cbn [FragProg.pexec_s FragFun.eval_r FragSem.eval_e rr_of p_exc p_env p_saved p_log app].
+      replace (event_eqb E_before_while_loop_body E_after_stmt) with false by reflexivity.
+      match goal with |- context [X_l sc glob W_after r ?s0 ?q] =>
+        assert (Hq : fl q = fl (p' ++ [ebw n])) by (apply fl_pre; [exact Hp|reflexivity]);
+        destruct (after_sim r s0 q _ Hq) as (A1 & A2 & A3) end.
+      repeat split; try assumption.
+      cbn [app]. rewrite (fl_cons E_before_while_loop_body), A3. unfold ebw. rewrite (fl_cons E_before_while_loop_body). reflexivity.
+    + cbn [app].
+      assert (Hq : fl p = fl (p' ++ [ebw n])) by (rewrite fl_app, Hp; unfold ebw; rewrite fl_single, Bf, app_nil_r; reflexivity).
+      destruct (after_sim r sv _ _ Hq) as (A1 & A2 & A3). unfold ebw, eaw in *. repeat split; try assumption.
+      rewrite A3. cbn [app]. rewrite (fl_cons E_before_while_loop_body), Bf. reflexivity.
+Qed.
+
+Lemma loop_sim : forall f r sv p p', fl p = fl p' ->
+  psim (ploop sc glob W_test W_body W_o' f r sv p) (prloop false sc glob n t b o f r p').
+Proof.
+  induction f as [|f IH]; intros r sv p p' Hp.
+  - repeat split.
+  - cbn [ploop prloop]. cbn [negb andb].
+    destruct (test_sim r p p' Hp) as (T1 & T2).
+    destruct (W_test r p) as [q LT]. destruct (ref_e t (look sc glob r)) as [q0 l]. cbn [fst snd] in T1, T2. subst q0.
+    set (lt := if negb ge || pgon p' (GTest n) then l ++ emitted E_after_while_test n q else []) in *.
+    destruct q as [vt|e]; [|repeat split; exact T2].
+    assert (Hq : fl (p ++ LT) = fl (p' ++ lt)) by (apply fl_pre; assumption).
+    destruct (truth vt).
+    + pose proof (iter_sim r sv (p ++ LT) (p' ++ lt) Hq) as HI. cbv zeta in HI.
+      set (LB := negb ge || pgon (p' ++ lt) (GBody n)) in *.
+      set (lb := if LB then [ebw n] else []) in *.
+      set (la := if LB then [eaw n] else []) in *.
+      replace (p' ++ lt ++ lb) with ((p' ++ lt) ++ lb) by (rewrite app_assoc; reflexivity).
+      destruct HI as (I1 & I2 & I3).
+      set (A := X_l sc glob W_body r sv (p ++ LT)) in *.
+      set (a := R_l (negb LB) false sc glob b r ((p' ++ lt) ++ lb)) in *.
+      rewrite I1.
+      assert (Hcont : psim (let z := ploop sc glob W_test W_body W_o' f (p_env A) (p_saved A) (p ++ LT ++ p_log A) in
+                            {| p_exc := p_exc z; p_env := p_env z; p_saved := p_saved z; p_log := LT ++ p_log A ++ p_log z |})
+                           (let z := prloop false sc glob n t b o f (pr_env a) (p' ++ lt ++ lb ++ pr_log a ++ la) in
+                            {| pr_exc := pr_exc z; pr_env := pr_env z; pr_log := lt ++ lb ++ pr_log a ++ la ++ pr_log z |})).
+      { cbv zeta. assert (Hn : fl (p ++ LT ++ p_log A) = fl (p' ++ lt ++ lb ++ pr_log a ++ la)).
+        { rewrite !fl_app, Hp, T2, I3, !fl_app. reflexivity. }
+        destruct (IH (p_env A) (p_saved A) _ _ Hn) as (J1 & J2 & J3). rewrite I2 in J1, J2, J3.
+        unfold psim. cbn [p_exc p_env p_log pr_exc pr_env pr_log]. rewrite I2. repeat split; try assumption.
+        rewrite !fl_app, T2, I3, J3, !fl_app, <- !app_assoc. reflexivity. }
+      destruct (pr_exc a) as [[x| |]|] eqn:Ex; try exact Hcont;
+        unfold psim; cbn [p_exc p_env p_log pr_exc pr_env pr_log]; repeat split; try assumption; try reflexivity;
+        rewrite !fl_app, T2, I3, !fl_app; reflexivity.
+    + destruct (ploud_list o Fo (psrc_b_t o Ho) false sc glob r sv (p ++ LT) (p' ++ lt) Hq) as (O1 & O2 & O3). fold W_o' in O1, O2, O3.
+      unfold psim. cbn [p_exc p_env p_log pr_exc pr_env pr_log]. repeat split; try assumption.
+      rewrite !fl_app, T2, O3. reflexivity.
+Qed.
+
+Definition W_main : pstmt := if ge then PWhileG n (GTest n) W_t' t W_body W_o' else PWhile n W_t' W_body W_o'.
+Lemma main_exec r sv p : X_s sc glob W_main r sv p = ploop sc glob W_test W_body W_o' fuel r sv p.
+Proof.
+  unfold W_main, W_test. destruct ge_cases as [E|E]; rewrite E; [rewrite pexec_PWhileG|rewrite pexec_PWhile]; reflexivity.
+Qed.
+End OneLoop.
+
+(* ---- statements *)
+Definition pmain_of (s : pstmt) : pstmt :=
+  match s with
+  | PExpr n r => PExpr n (wrapR c E_after_expr_stmt n (ir c r))
+  | PAssign n xs r => PAssign n xs (wrapR c E_after_assign_rhs (rid r) (defR c E_before_assign_rhs (rid r) (ir c r)))
+  | PIf n t b o => PIf n (wrap c E_after_if_test n (ie c t)) (flat_map (pis c ge false) b) (flat_map (pis c ge false) o)
+  | PWhile n t b o => W_main n t b o
+  | PReturn n (Some r) => PReturn n (Some (wrapR c E_after_return (rid r) (defR c E_before_return (rid r) (ir c r))))
+  | PDef n name ps body =>
+      let b' := flat_map (pis c ge false) body in
+      let with_after := if sub c E_after_function_execution
+                        then [PTry b' [PEmit E_after_function_execution n None (Some (if ge then Some (GFun n) else None))]]
+                        else b' in
+      PDef n name ps
+        [PNameTry
+           (if ge then [PGuardIf (GFun n) (if sub c E_before_function_body then Some n else None) with_after body]
+            else (if sub c E_before_function_body then [PEmit E_before_function_body n (Some (RExp (XConst 0 (SBool true)))) None] else []) ++ with_after)
+           body]
+  | other => other
+  end.
+Definition p_is_expr (s : pstmt) : bool := match s with PExpr _ _ => true | _ => false end.
+Definition pmvalue (s : pstmt) : rhs := match pmain_of s with PExpr _ v => v | _ => RExp XThunkCall end.
+Definition pwants (m : bool) : bool := sub c E_after_stmt || (sub c E_after_module_stmt && m).
+Definition pown_of (m : bool) (s : pstmt) : list pstmt :=
+  match s with
+  | PReturn _ _ => [pmain_of s]
+  | _ => pmain_and_after (pwants m) m (pid s) (pmain_of s) (p_is_expr s) (pmvalue s)
+  end.
+Definition pbst (s : pstmt) : entry := (E_before_stmt, pid s, Some VNone).
+Definition pthunk_branch (m : bool) (s : pstmt) : list pstmt :=
+  pmain_and_after (pwants m) m (pid s) (PExpr 0 (RExp XThunkCall)) true (RExp XThunkCall).
+
+Lemma pis_unfold m s : pis c ge m s =
+  let expanded := if sub c E_before_stmt then [PBefore (pid s) (pthunk_branch m s) (pown_of m s)] else pown_of m s in
+  if m && sub c E_after_module_stmt then expanded ++ [PEmit E_after_module_stmt (pid s) (Some (RExp (XLoadSaved (pid s)))) None] else expanded.
+Proof.
+  destruct s; try reflexivity.
+  unfold pown_of, pmvalue, pmain_of, W_main, W_body, W_after, W_t', W_b', W_o'. cbn [pis pid].
+  destruct ge_cases as [E|E]; rewrite E; reflexivity.
+Qed.
+
+Definition pmain_ok (s : pstmt) : Prop := forall sc glob r sv pm pr_, fl pm = fl (pr_ ++ [pbst s]) ->
+  let A := X_s sc glob (pmain_of s) r sv pm in
+  let '(x, r', l, v) := pbody_of false sc glob s r (pr_ ++ [pbst s]) in
+  p_exc A = x /\ p_env A = r' /\ fl (p_log A) = fl l.
+
+Lemma pmain_ok_expr n v : src_r v = true -> pmain_ok (PExpr n v).
+Proof.
+  intros Hs sc glob r sv pm pr_ Hp. cbn [pmain_of pbody_of FragProg.pexec_s pid fsay]. rewrite EwrapR.
+  destruct (Rloud v Hs (look sc glob r) (globs sc glob r) sv pm _ Hp) as [A1 A2].
+  destruct (eval_r call _ _ (ir c v) sv pm) as [[q sv'] l]. destruct (ref_r callr false _ _ v _) as [q' l']. cbn [fst snd] in A1, A2. subst q'.
+  cbn [p_exc p_env p_log]. repeat split. rewrite !fl_app, A2. fin.
+Qed.
+
+Lemma pmain_ok_assign n xs v : src_r v = true -> pmain_ok (PAssign n xs v).
+Proof.
+  intros Hs sc glob r sv pm pr_ Hp. cbn [pmain_of pbody_of FragProg.pexec_s pid fsay]. rewrite EwrapR.
+  destruct (EdefR E_before_assign_rhs (rid v) (ir c v) (look sc glob r) (globs sc glob r) sv pm) as (p2 & Hp2 & ->).
+  assert (HP : fl p2 = fl ((pr_ ++ [pbst (PAssign n xs v)]) ++ [(E_before_assign_rhs, rid v, None)])).
+  { rewrite Hp2. apply fl_pre; [exact Hp|reflexivity]. }
+  destruct (Rloud v Hs (look sc glob r) (globs sc glob r) sv p2 _ HP) as [A1 A2].
+  destruct (eval_r call _ _ (ir c v) sv p2) as [[q sv'] l]. destruct (ref_r callr false _ _ v _) as [q' l']. cbn [fst snd] in A1, A2. subst q'.
+  destruct q; cbn [p_exc p_env p_log pexc_of]; repeat split; rewrite !fl_app, A2; fin.
+Qed.
+
+Lemma pmain_ok_return n v : (match v with Some r => src_r r | None => true end) = true -> pmain_ok (PReturn n v).
+Proof.
+  intros Hs sc glob r sv pm pr_ Hp. destruct v as [v|]; [|cbn; repeat split].
+  cbn [pmain_of pbody_of FragProg.pexec_s pid fsay]. rewrite EwrapR.
+  destruct (EdefR E_before_return (rid v) (ir c v) (look sc glob r) (globs sc glob r) sv pm) as (p2 & Hp2 & ->).
+  assert (HP : fl p2 = fl ((pr_ ++ [pbst (PReturn n (Some v))]) ++ [(E_before_return, rid v, None)])).
+  { rewrite Hp2. apply fl_pre; [exact Hp|reflexivity]. }
+  destruct (Rloud v Hs (look sc glob r) (globs sc glob r) sv p2 _ HP) as [A1 A2].
+  destruct (eval_r call _ _ (ir c v) sv p2) as [[q sv'] l]. destruct (ref_r callr false _ _ v _) as [q' l']. cbn [fst snd] in A1, A2. subst q'.
+  cbn [p_exc p_env p_log]. repeat split; rewrite !fl_app, A2; fin.
+Qed.
+
+Lemma pmain_ok_pass n : pmain_ok (PPass n).
+Proof. intros sc glob r sv pm pr_ _. cbn. repeat split. Qed.
+Lemma pmain_ok_break n : pmain_ok (PBreak n).
+Proof. intros sc glob r sv pm pr_ _. cbn. repeat split. Qed.
+Lemma pmain_ok_continue n : pmain_ok (PContinue n).
+Proof. intros sc glob r sv pm pr_ _. cbn. repeat split. Qed.
+Lemma pmain_ok_def n name ps body : pmain_ok (PDef n name ps body).
+Proof. intros sc glob r sv pm pr_ _. cbn. repeat split. Qed.
+
+Lemma pmain_ok_if n t b o : src_e t = true -> forallb psrc_b b = true -> forallb psrc_b o = true ->
+  Forall ploud_ok b -> Forall ploud_ok o -> pmain_ok (PIf n t b o).
+Proof.
+  intros Ht Hb Ho Fb Fo sc glob r sv pm pr_ Hp. cbn [pmain_of pbody_of pid fsay]. rewrite pexec_PIf, eval_wrap, (eval_ie _ _ _ _ _ _ c t Ht).
+  destruct (ref_e t (look sc glob r)) as [[vt|e] l]; cbn [fst snd emitted p_exc p_env p_log]; [|repeat split; fin].
+  set (LT := fl l ++ (if sub c E_after_if_test then [(E_after_if_test, n, Some vt)] else [])).
+  set (l1 := l ++ [(E_after_if_test, n, Some vt)]).
+  assert (H1 : fl LT = fl l1) by (subst LT l1; fin).
+  assert (Hq : fl (pm ++ LT) = fl ((pr_ ++ [pbst (PIf n t b o)]) ++ l1)) by (apply fl_pre; [exact Hp|exact H1]).
+  assert (Hl : psim (X_l sc glob (if truth vt then flat_map (pis c ge false) b else flat_map (pis c ge false) o) r sv (pm ++ LT))
+                    (R_l false false sc glob (if truth vt then b else o) r ((pr_ ++ [pbst (PIf n t b o)]) ++ l1)))
+    by (destruct (truth vt); [apply (ploud_list b Fb (psrc_b_t b Hb))|apply (ploud_list o Fo (psrc_b_t o Ho))]; exact Hq).
+  destruct Hl as (E1 & E2 & E3). cbn [p_exc p_env p_log]. repeat split; try assumption.
+  rewrite !fl_app, H1, E3. reflexivity.
+Qed.
+
+Lemma pmain_ok_while n t b o : src_e t = true -> forallb psrc_b b = true -> forallb psrc_b o = true ->
+  Forall ploud_ok b -> Forall ploud_ok o -> pmain_ok (PWhile n t b o).
+Proof.
+  intros Ht Hb Ho Fb Fo sc glob r sv pm pr_ Hp. cbn [pmain_of pbody_of pid fsay]. rewrite main_exec.
+  destruct (loop_sim n t b o Ht Hb Ho Fb Fo sc glob fuel r sv pm (pr_ ++ [pbst (PWhile n t b o)]) Hp) as (E1 & E2 & E3).
+  repeat split; assumption.
+Qed.
+
+Lemma pexec_PEmit_some e n v g sc glob r sv pre : (forall k, v <> RExp (XLoadSaved k)) ->
+  X_s sc glob (PEmit e n (Some v) g) r sv pre =
+  let '(q, sv', l) := eval_r call (look sc glob r) (globs sc glob r) v sv pre in
+  match q with
+  | ROk x => {| p_exc := None; p_env := r; p_saved := (if event_eqb e E_after_stmt then x else sv'); p_log := l ++ [(e, n, Some x)] |}
+  | RErr x => {| p_exc := Some (PO x); p_env := r; p_saved := sv'; p_log := l |}
+  end.
+Proof. intros H. destruct v as [v| | |]; try reflexivity. destruct v; try reflexivity. exfalso. exact (H n0 eq_refl). Qed.
+
+Lemma pwants_false m : pwants m = false -> sub c E_after_stmt = false.
+Proof. unfold pwants. intros H. apply orb_false_iff in H. exact (proj1 H). Qed.
+
+Lemma pbody_nonexpr_value sc glob s r pr_ : psrc_t s = true -> p_is_expr s = false -> snd (pbody_of false sc glob s r pr_) = VNone.
+Proof.
+  intros Hs He. destruct s; try discriminate Hs; try discriminate He; cbn [pbody_of]; try reflexivity.
+  - destruct (ref_r callr false _ _ r0 _); reflexivity.
+  - destruct (ref_e t (look sc glob r)) as [[vt|e] l]; reflexivity.
+  - destruct r0 as [v|]; [destruct (ref_r callr false _ _ v _)|]; reflexivity.
+Qed.
+
+Definition pown_concl (s : pstmt) (m : bool) (sc : scope) (glob r : env) (pr_ : list entry) (O : pres) : Prop :=
+  let '(x, r', l, v) := pbody_of false sc glob s r (pr_ ++ [pbst s]) in
+  let av := if m then v else VNone in
+  p_exc O = x /\ p_env O = r' /\
+  fl (p_log O) = fl (l ++ match x with None => [(E_after_stmt, pid s, Some av)] | Some _ => [] end) /\
+  (pwants m = true -> x = None -> p_saved O = av).
+
+Lemma pown_generic s m : psrc_t s = true -> pmain_ok s -> p_is_expr s && m = false -> forall sc glob r sv pm pr_, fl pm = fl (pr_ ++ [pbst s]) ->
+  pown_concl s m sc glob r pr_ (X_l sc glob (pmain_and_after (pwants m) m (pid s) (pmain_of s) (p_is_expr s) (pmvalue s)) r sv pm).
+Proof.
+  intros Hs HM EM sc glob r sv pm pr_ Hp. unfold pown_concl, pmain_and_after. rewrite EM.
+  specialize (HM sc glob r sv pm pr_ Hp). cbv zeta in HM.
+  assert (Hav : (if m then snd (pbody_of false sc glob s r (pr_ ++ [pbst s])) else VNone) = VNone).
+  { destruct m; [|reflexivity]. rewrite andb_true_r in EM. apply pbody_nonexpr_value; assumption. }
+  destruct (pbody_of false sc glob s r (pr_ ++ [pbst s])) as [[[x r'] l] v] eqn:Eb. destruct HM as (A1 & A2 & A3). cbn [snd] in Hav. rewrite Hav.
+  destruct (pwants m) eqn:W.
+  - rewrite pexec_l_cons. unfold pseq. rewrite A1. destruct x as [e|].
+    + repeat split; try assumption. rewrite A3, app_nil_r. reflexivity. intros _ H; discriminate H.
+    + rewrite pexec_l_single. cbn [FragProg.pexec_s p_exc p_env p_saved p_log].
+      replace (event_eqb E_after_stmt E_after_stmt) with true by reflexivity.
+      repeat split; try assumption. rewrite !fl_app, A3. reflexivity.
+  - pose proof (pwants_false m W) as Wa. rewrite pexec_l_single.
+    repeat split; try assumption; [|intros H; discriminate H].
+    rewrite fl_app, A3. destruct x; [rewrite fl_nil|rewrite fl_single, Wa]; rewrite app_nil_r; reflexivity.
+Qed.
+
+Lemma pown_ok s m : psrc_t s = true -> pmain_ok s -> forall sc glob r sv pm pr_, fl pm = fl (pr_ ++ [pbst s]) ->
+  pown_concl s m sc glob r pr_ (X_l sc glob (pown_of m s) r sv pm).
+Proof.
+  intros Hs HM sc glob r sv pm pr_ Hp.
+  destruct s as [n v|n xs v|n|n t b o|n t b o|n|n|n v|n name ps body| | | | | |]; try discriminate Hs.
+  - (* expression statement *)
+    destruct m; [|apply pown_generic; try assumption; reflexivity].
+    unfold pown_concl, pown_of, pmain_and_after. cbn [psrc_t psrc_b] in Hs.
+    assert (W : pwants true = true \/ pwants true = false) by (destruct (pwants true); auto). destruct W as [W|W].
+    + rewrite W. cbn [p_is_expr andb pmvalue pmain_of pid pbody_of fsay].
+      rewrite pexec_l_single, (pexec_PEmit_some _ _ _ _ _ _ _ _ _ (FragFunProofs.ir_not_load c E_after_expr_stmt n v Hs)), eval_wrapR.
+      destruct (Rloud v Hs (look sc glob r) (globs sc glob r) sv pm _ Hp) as [A1 A2].
+      destruct (eval_r call _ _ (ir c v) sv pm) as [[q sv'] l]. destruct (ref_r callr false _ _ v _) as [q' l']. cbn [fst snd] in A1, A2. subst q'.
+      destruct q as [x|e]; cbn [pexc_of p_exc p_env p_log p_saved emitted_r].
+      * replace (event_eqb E_after_stmt E_after_stmt) with true by reflexivity. repeat split; rewrite !fl_app, A2; fin.
+      * repeat split; try (rewrite !fl_app, A2; fin). intros _ H; discriminate H.
+    + rewrite W. pose proof (pwants_false true W) as Wa. specialize (HM sc glob r sv pm pr_ Hp). cbv zeta in HM.
+      destruct (pbody_of false sc glob (PExpr n v) r (pr_ ++ [pbst (PExpr n v)])) as [[[x r'] l] v'] eqn:Eb. destruct HM as (A1 & A2 & A3).
+      rewrite pexec_l_single. repeat split; try assumption; [|intros H; discriminate H].
+      rewrite fl_app, A3. destruct x; [rewrite fl_nil|rewrite fl_single, Wa]; rewrite app_nil_r; reflexivity.
+  - apply pown_generic; try assumption; reflexivity.
+  - apply pown_generic; try assumption; reflexivity.
+  - apply pown_generic; try assumption; reflexivity.
+  - apply pown_generic; try assumption; reflexivity.
+  - apply pown_generic; try assumption; reflexivity.
+  - apply pown_generic; try assumption; reflexivity.
+  - (* return: never followed by an after_stmt emission, and never ends normally *)
+    specialize (HM sc glob r sv pm pr_ Hp). cbv zeta in HM. unfold pown_concl, pown_of. rewrite pexec_l_single.
+    destruct v as [v|]; cbn [pbody_of pid fsay] in HM |- *.
+    + destruct (ref_r callr false _ _ v _) as [q l]. destruct HM as (A1 & A2 & A3). repeat split; try assumption.
+      * rewrite app_nil_r. exact A3.
+      * intros _ H. discriminate H.
+    + destruct HM as (A1 & A2 & A3). repeat split; try assumption. intros _ H. discriminate H.
+  - apply pown_generic; try assumption; reflexivity.
+Qed.
+
+Lemma passemble s : psrc_t s = true -> pmain_ok s -> ploud_ok s.
+Proof.
+  intros Hs HM _ m sc glob r sv pre pre' Hp. rewrite (pis_unfold m s), pref_unfold. cbv zeta. cbn [fsay].
+  assert (HX : exists E, (X_l sc glob (if sub c E_before_stmt then [PBefore (pid s) (pthunk_branch m s) (pown_of m s)] else pown_of m s) r sv pre) = E /\
+               let '(x, r', l, v) := pbody_of false sc glob s r (pre' ++ [pbst s]) in
+               let av := if m then v else VNone in
+               p_exc E = x /\ p_env E = r' /\
+               fl (p_log E) = fl ([pbst s] ++ l ++ match x with None => [(E_after_stmt, pid s, Some av)] | Some _ => [] end) /\
+               (pwants m = true -> x = None -> p_saved E = av)).
+  { eexists. split; [reflexivity|]. destruct (sub c E_before_stmt) eqn:Bf.
+    - rewrite pexec_l_single, pexec_PBefore. cbv zeta.
+      assert (Hq : fl (pre ++ [(E_before_stmt, pid s, Some VNone)]) = fl (pre' ++ [pbst s])) by (apply fl_pre; [exact Hp|reflexivity]).
+      pose proof (pown_ok s m Hs HM sc glob r sv _ _ Hq) as HO. unfold pown_concl in HO.
+      destruct (pbody_of false sc glob s r (pre' ++ [pbst s])) as [[[x r'] l] v]. destruct HO as (O1 & O2 & O3 & O4).
+      cbn [p_exc p_env p_saved p_log]. repeat split; try assumption.
+      change ((E_before_stmt, pid s, Some VNone) :: p_log (X_l sc glob (pown_of m s) r sv (pre ++ [(E_before_stmt, pid s, Some VNone)])))
+        with ([pbst s] ++ p_log (X_l sc glob (pown_of m s) r sv (pre ++ [(E_before_stmt, pid s, Some VNone)]))).
+      rewrite !fl_app, O3, !fl_app. reflexivity.
+    - assert (Hq : fl pre = fl (pre' ++ [pbst s])) by (rewrite fl_app, Hp; unfold pbst; rewrite fl_single, Bf, app_nil_r; reflexivity).
+      pose proof (pown_ok s m Hs HM sc glob r sv _ _ Hq) as HO. unfold pown_concl in HO.
+      destruct (pbody_of false sc glob s r (pre' ++ [pbst s])) as [[[x r'] l] v]. destruct HO as (O1 & O2 & O3 & O4).
+      repeat split; try assumption. rewrite O3, (fl_app [pbst s]). unfold pbst. rewrite fl_single, Bf. reflexivity. }
+  destruct HX as (E & HE & HP). rewrite <- HE in HP. clear HE.
+  set (EXP := if sub c E_before_stmt then _ else _) in *.
+  change (pre' ++ [(E_before_stmt, pid s, Some VNone)]) with (pre' ++ [pbst s]).
+  destruct (pbody_of false sc glob s r (pre' ++ [pbst s])) as [[[x r'] l] v]. cbv zeta in HP. destruct HP as (E1 & E2 & E4 & E3).
+  set (av := if m then v else VNone) in *.
+  destruct (m && sub c E_after_module_stmt) eqn:Am.
+  - apply andb_true_iff in Am as [Em Ea]. subst m.
+    assert (W : pwants true = true) by (unfold pwants; rewrite Ea, orb_true_r; reflexivity).
+    rewrite pexec_l_app. unfold pseq. rewrite E1. destruct x as [e|].
+    + unfold psim. cbn [pr_exc pr_env pr_log]. repeat split; try assumption; try (rewrite E4, ?app_nil_r; reflexivity).
+    + rewrite pexec_l_single. cbn [FragProg.pexec_s p_exc p_env p_saved p_log]. unfold psim. cbn [p_exc p_env p_log pr_exc pr_env pr_log].
+      repeat split; try assumption. rewrite (E3 W eq_refl).
+      rewrite fl_app, E4. rewrite <- fl_app. f_equal. unfold pbst. cbn [app]. rewrite <- app_assoc. reflexivity.
+  - unfold psim. cbn [pr_exc pr_env pr_log]. repeat split; try assumption. rewrite E4. unfold pbst. cbn [app].
+    destruct x as [e|]; [reflexivity|].
+    rewrite !fl_cons, !fl_app, !fl_cons. f_equal. f_equal. f_equal.
+    destruct m; [|reflexivity]. cbn [andb] in Am. rewrite fl_single, Am. reflexivity.
+Qed.
+
+Theorem ploud_stmt : forall s, ploud_ok s.
+Proof.
+  induction s using pstmt_ind'; intros Hs; try discriminate Hs; cbn [psrc_t psrc_b] in Hs.
+  - apply passemble; [exact Hs|apply pmain_ok_expr; exact Hs|exact Hs].
+  - apply passemble; [exact Hs|apply pmain_ok_assign; exact Hs|exact Hs].
+  - apply passemble; [reflexivity|apply pmain_ok_pass|reflexivity].
+  - pose proof Hs as Hs'. apply andb_true_iff in Hs as [Hs Ho]. apply andb_true_iff in Hs as [Ht Hb].
+    apply passemble; [exact Hs'|apply pmain_ok_if; assumption|exact Hs'].
+  - pose proof Hs as Hs'. apply andb_true_iff in Hs as [Hs Ho]. apply andb_true_iff in Hs as [Ht Hb].
+    apply passemble; [exact Hs'|apply pmain_ok_while; assumption|exact Hs'].
+  - apply passemble; [reflexivity|apply pmain_ok_break|reflexivity].
+  - apply passemble; [reflexivity|apply pmain_ok_continue|reflexivity].
+  - apply passemble; [exact Hs|apply pmain_ok_return; destruct v; [exact Hs|reflexivity]|exact Hs].
+  - apply passemble; [exact Hs|apply pmain_ok_def|exact Hs].
+Qed.
+
+(* ================================================================ one call, given that the calls it makes agree *)
+Definition with_after (f : N) (body : list pstmt) : list pstmt :=
+  if sub c E_after_function_execution
+  then [PTry (flat_map (pis c ge false) body) [PEmit E_after_function_execution f None (Some (if ge then Some (GFun f) else None))]]
+  else flat_map (pis c ge false) body.
+Definition instr_body (f : N) (body : list pstmt) : list pstmt :=
+  [PNameTry
+     (if ge then [PGuardIf (GFun f) (if sub c E_before_function_body then Some f else None) (with_after f body) body]
+      else (if sub c E_before_function_body then [PEmit E_before_function_body f (Some (RExp (XConst 0 (SBool true)))) None] else []) ++ with_after f body)
+     body].
+Definition efb (f : N) : entry := (E_before_function_body, f, Some (cval (SBool true))).
+Definition eafe (f : N) : entry := (E_after_function_execution, f, Some VNone).
+
+Lemma pmain_of_def n name ps body : pmain_of (PDef n name ps body) = PDef n name ps (instr_body n body).
+Proof. reflexivity. Qed.
+
+Lemma passigned_nametry b p : passigned (PNameTry b p) = flat_map passigned p.
+Proof. reflexivity. Qed.
+Lemma passigned_instr_body f body : passigned_l (instr_body f body) = passigned_l body.
+Proof. unfold passigned_l, instr_body. cbn [flat_map]. rewrite passigned_nametry, app_nil_r. reflexivity. Qed.
+
+Lemma ploud_all u : Forall ploud_ok u.
+Proof. apply Forall_forall. intros s _. apply ploud_stmt. Qed.
+
+Lemma with_after_sim f body sc glob r sv q q' : fl q = fl q' -> forallb psrc_b body = true ->
+  p_exc (X_l sc glob (with_after f body) r sv q) = pr_exc (R_l false false sc glob body r q') /\
+  fl (p_log (X_l sc glob (with_after f body) r sv q)) = fl (pr_log (R_l false false sc glob body r q') ++ [eafe f]).
+Proof.
+  intros Hq Hb. destruct (ploud_list body (ploud_all body) (psrc_b_t body Hb) false sc glob r sv q q' Hq) as (E1 & E2 & E3).
+  unfold with_after. destruct (sub c E_after_function_execution) eqn:Ea.
+  - rewrite pexec_l_single, pexec_PTry. cbv zeta. rewrite pexec_l_single. cbn [FragProg.pexec_s p_exc p_env p_saved p_log].
+    split; [exact E1|]. rewrite !fl_app, E3. reflexivity.
+  - split; [exact E1|]. rewrite fl_app, E3. unfold eafe. rewrite fl_single, Ea, app_nil_r. reflexivity.
+Qed.
+
+Lemma body_sim f body sc glob r sv p p' : fl p = fl p' -> forallb psrc_b body = true ->
+  let loud := negb ge || pgon p' (GFun f) in
+  let lb := if loud then [efb f] else [] in
+  let A := X_l sc glob (instr_body f body) r sv p in
+  let B := R_l (negb loud) false sc glob body r (p' ++ lb) in
+  p_exc A = pr_exc B /\ fl (p_log A) = fl (lb ++ pr_log B ++ (if loud then [eafe f] else [])).
+Proof.
+  intros Hp Hb. cbv zeta. unfold instr_body. rewrite pexec_l_single, pexec_PNameTry.
+  set (IG := [PGuardIf (GFun f) (if sub c E_before_function_body then Some f else None) (with_after f body) body]).
+  set (IN := (if sub c E_before_function_body then [PEmit E_before_function_body f (Some (RExp (XConst 0 (SBool true)))) None] else []) ++ with_after f body).
+  destruct ge_cases as [G|G].
+  - (* global guards: the guard decides *)
+    replace (if ge then IG else IN) with IG by (rewrite G; reflexivity). replace (negb ge) with false by (rewrite G; reflexivity). cbn [orb]. subst IG IN.
+    rewrite pexec_l_single, pexec_PGuardIf, (pgon_fl p p' _ Hp). cbn [before_event]. destruct (pgon p' (GFun f)) eqn:On; cbn [negb].
+    + destruct (sub c E_before_function_body) eqn:Eb.
+      * assert (Hq : fl (p ++ [(E_before_function_body, f, Some (cval (SBool true)))]) = fl (p' ++ [efb f])) by (apply fl_pre; [exact Hp|reflexivity]).
+        destruct (with_after_sim f body sc glob r sv _ _ Hq Hb) as [W1 W2]. cbv zeta. cbn [p_exc p_log]. split; [exact W1|].
+        change ((E_before_function_body, f, Some (cval (SBool true))) :: p_log (X_l sc glob (with_after f body) r sv (p ++ [(E_before_function_body, f, Some (cval (SBool true)))])))
+          with ([efb f] ++ p_log (X_l sc glob (with_after f body) r sv (p ++ [(E_before_function_body, f, Some (cval (SBool true)))]))).
+        rewrite fl_app, W2, <- fl_app. reflexivity.
+      * assert (Hq : fl p = fl (p' ++ [efb f])) by (rewrite fl_app, Hp; unfold efb; rewrite fl_single, Eb, app_nil_r; reflexivity).
+        destruct (with_after_sim f body sc glob r sv _ _ Hq Hb) as [W1 W2]. split; [exact W1|].
+        rewrite W2, (fl_app [efb f]). unfold efb at 2. rewrite fl_single, Eb. reflexivity.
+    + assert (Hq : fl p = fl (p' ++ [])) by (rewrite app_nil_r; exact Hp).
+      pose proof (pquiet_list false body (pquiet_all false body) Hb sc glob r sv p _ Hq) as HQ. rewrite ppr_false_map in HQ. destruct HQ as (E1 & E2 & E3).
+      split; [exact E1|]. cbn [app]. rewrite app_nil_r. exact E3.
+  - (* no global guards: always instrumented *)
+    replace (if ge then IG else IN) with IN by (rewrite G; reflexivity). replace (negb ge) with true by (rewrite G; reflexivity). cbn [orb negb]. subst IG IN.
+    destruct (sub c E_before_function_body) eqn:Eb.
+    + cbn [app]. rewrite pexec_l_cons. unfold pseq. cbn [FragProg.pexec_s FragFun.eval_r FragSem.eval_e rr_of p_exc p_env p_saved p_log app].
+      assert (Hq : fl (p ++ [(E_before_function_body, f, Some (cval (SBool true)))]) = fl (p' ++ [efb f])) by (apply fl_pre; [exact Hp|reflexivity]).
+      replace (event_eqb E_before_function_body E_after_stmt) with false by reflexivity.
+      destruct (with_after_sim f body sc glob r sv _ _ Hq Hb) as [W1 W2]. cbn [p_exc p_log]. split; [exact W1|].
+      change (efb f :: pr_log (R_l false false sc glob body r (p' ++ [efb f])) ++ [eafe f])
+        with ([efb f] ++ pr_log (R_l false false sc glob body r (p' ++ [efb f])) ++ [eafe f]).
+      rewrite (fl_app [efb f]), <- W2. unfold efb. rewrite fl_cons, fl_single. reflexivity.
+    + cbn [app]. assert (Hq : fl p = fl (p' ++ [efb f])) by (rewrite fl_app, Hp; unfold efb; rewrite fl_single, Eb, app_nil_r; reflexivity).
+      destruct (with_after_sim f body sc glob r sv _ _ Hq Hb) as [W1 W2]. split; [exact W1|].
+      rewrite W2. unfold efb. rewrite (fl_cons E_before_function_body), Eb. reflexivity.
+Qed.
+End WithCalls.
+
+(* ---------------------------------------------------------------- the tables of definitions *)
+Definition itab (ftab : N -> option (list N * list pstmt)) : N -> option (list N * list pstmt) :=
+  fun f => match ftab f with Some (ps, body) => Some (ps, instr_body f body) | None => None end.
+Definition tab_ok (ftab : N -> option (list N * list pstmt)) : Prop := forall f ps body, ftab f = Some (ps, body) -> forallb psrc_b body = true.
+
+Lemma call_step tabi ftab call callr : (forall f, tabi f = itab ftab f) -> tab_ok ftab -> call_sim c call callr ->
+  call_sim c (pdo_call binop cmpop unop truth cval is_and c pol fuel tabi call) (pdo_callr binop cmpop unop truth cval is_and c pol fuel ge ftab callr).
+Proof.
+  intros Hi Ht Hc f vs glob sv p p' Hp. unfold pdo_call, pdo_callr. rewrite Hi. unfold itab.
+  destruct (ftab f) as [[ps body]|] eqn:Ef; [|split; reflexivity].
+  destruct (Nat.eqb (length ps) (length vs)); [|split; reflexivity].
+  rewrite passigned_instr_body.
+  destruct (body_sim call callr Hc f body (Some (ps ++ passigned_l body)) glob (bind ps vs (fun _ => None)) sv p p' Hp (Ht f ps body Ef)) as [B1 B2].
+  unfold FragFunProofs.rsim. cbn [fst snd]. split.
+  - rewrite B1. reflexivity.
+  - exact B2.
+Qed.
+
+Theorem calls_agree tabi ftab : (forall f, tabi f = itab ftab f) -> tab_ok ftab -> forall d,
+  call_sim c (pcall binop cmpop unop truth cval is_and c pol fuel tabi d) (pcallr binop cmpop unop truth cval is_and c pol fuel ge ftab d).
+Proof.
+  intros Hi Ht. induction d as [|d IH].
+  - intros f vs glob sv p p' _. split; reflexivity.
+  - cbn [pcall pcallr]. apply call_step; assumption.
+Qed.
+
+(* ---------------------------------------------------------------- the definitions of the instrumented module *)
+Lemma pdefs_of_app u w n : pdefs_of (u ++ w) n = match pdefs_of u n with Some d => Some d | None => pdefs_of w n end.
+Proof. induction u as [|x u IH]; [reflexivity|]. cbn [app pdefs_of]. destruct (pfind_def n x); [reflexivity|exact IH]. Qed.
+
+Lemma pdefs_pis s n : psrc_t s = true ->
+  pdefs_of (pis c ge true s) n = match pfind_def n s with Some (ps, body) => Some (ps, instr_body n body) | None => None end.
+Proof.
+  intros Hs. rewrite pis_unfold. cbv zeta. unfold pown_of, pthunk_branch, pmain_and_after.
+  destruct s as [k v|k xs v|k|k t b o|k t b o|k|k|k v|k name ps body| | | | | |]; try discriminate Hs; cbn [p_is_expr andb pid].
+  1-7: try (unfold pmain_of, W_main; destruct ge_cases as [E|E]; rewrite E); destruct (sub c E_before_stmt), (pwants true), (sub c E_after_module_stmt); reflexivity.
+  - destruct v; destruct (sub c E_before_stmt), (sub c E_after_module_stmt); reflexivity.
+  - rewrite pmain_of_def.
+    destruct (sub c E_before_stmt), (pwants true), (sub c E_after_module_stmt); cbn [app pdefs_of pfind_def];
+      destruct (N.eqb_spec k n) as [->|Hne]; reflexivity.
+Qed.
+
+Lemma pdefs_flat m n : forallb psrc_t m = true ->
+  pdefs_of (flat_map (pis c ge true) m) n = match pdefs_of m n with Some (ps, body) => Some (ps, instr_body n body) | None => None end.
+Proof.
+  induction m as [|s m IH]; intros Hs; [reflexivity|].
+  cbn [forallb] in Hs. apply andb_true_iff in Hs as [Hs Hm]. cbn [flat_map pdefs_of]. rewrite pdefs_of_app, (pdefs_pis s n Hs), (IH Hm).
+  destruct (pfind_def n s) as [[ps body]|]; reflexivity.
+Qed.
+
+Lemma pdefs_instr m : forallb psrc_t m = true -> forall n, pdefs_of (pinstr_module c ge m) n = itab (pdefs_of m) n.
+Proof.
+  intros Hs n. unfold pinstr_module, itab. rewrite !pdefs_of_app, (pdefs_flat m n Hs).
+  destruct (sub c E_init_module); cbn [pdefs_of pfind_def]; destruct (pdefs_of m n) as [[ps body]|]; try reflexivity;
+    destruct (sub c E_exit_module); reflexivity.
+Qed.
+
+Lemma pfind_def_src s n ps body : psrc_t s = true -> pfind_def n s = Some (ps, body) -> forallb psrc_b body = true.
+Proof.
+  intros Hs H. destruct s; try discriminate H; try discriminate Hs. cbn [pfind_def] in H. destruct (N.eqb n0 n); [|discriminate H]. injection H as <- <-. exact Hs.
+Qed.
+Lemma pdefs_src m : forallb psrc_t m = true -> tab_ok (pdefs_of m).
+Proof.
+  induction m as [|s m IH]; intros Hs f ps body H; [discriminate H|].
+  cbn [forallb] in Hs. apply andb_true_iff in Hs as [Hs Hm]. cbn [pdefs_of] in H.
+  destruct (pfind_def f s) as [d|] eqn:Ef.
+  - injection H as ->. exact (pfind_def_src s f ps body Hs Ef).
+  - exact (IH Hm f ps body H).
+Qed.
+
+(* ================================================================ the module *)
+Theorem pmodule_sim m : forallb psrc_t m = true -> forall d r sv,
+  psim (prun binop cmpop unop truth cval is_and c pol fuel d (pinstr_module c ge m) r sv)
+       (pref_module binop cmpop unop truth cval is_and c pol fuel ge d m r).
+Proof.
+  intros Hs d r sv. unfold prun, FragProg.pref_module.
+  pose proof (calls_agree (pdefs_of (pinstr_module c ge m)) (pdefs_of m) (pdefs_instr m Hs) (pdefs_src m Hs) d) as Hc.
+  set (call := pcall binop cmpop unop truth cval is_and c pol fuel (pdefs_of (pinstr_module c ge m)) d) in *.
+  set (callr := pcallr binop cmpop unop truth cval is_and c pol fuel ge (pdefs_of m) d) in *.
+  unfold pinstr_module.
+  set (g0 := fun _ : N => @None val).
+  assert (HB : forall r sv p p', fl p = fl p' -> psim (pexec_l call None g0 (flat_map (pis c ge true) m) r sv p) (pref_l callr false true None g0 m r p')).
+  { intros. apply (ploud_list call callr); [apply (ploud_all call callr Hc)|exact Hs|assumption]. }
+  assert (HX : forall r sv p p', fl p = fl p' ->
+            psim (pexec_l call None g0 (flat_map (pis c ge true) m ++ (if sub c E_exit_module then [PEmit E_exit_module 0 None None] else [])) r sv p)
+                 {| pr_exc := pr_exc (pref_l callr false true None g0 m r p'); pr_env := pr_env (pref_l callr false true None g0 m r p');
+                    pr_log := pr_log (pref_l callr false true None g0 m r p') ++ match pr_exc (pref_l callr false true None g0 m r p') with None => [(E_exit_module, 0, Some VNone)] | Some _ => [] end |}).
+  { intros r0 sv0 p p' Hp. destruct (HB r0 sv0 p p' Hp) as (B1 & B2 & B3). rewrite pexec_l_app. unfold pseq. rewrite B1.
+    destruct (pr_exc (pref_l callr false true None g0 m r0 p')) as [e|] eqn:Ex.
+    - unfold psim. cbn [pr_exc pr_env pr_log]. rewrite app_nil_r. repeat split; assumption.
+    - unfold psim. cbn [p_exc p_env p_log pr_exc pr_env pr_log].
+      destruct (sub c E_exit_module) eqn:Xm; cbn [FragProg.pexec_l FragProg.pexec_s pseq p_exc p_env p_log app]; repeat split; try assumption;
+        rewrite ?fl_app, ?B3, ?fl_single, ?Xm, ?fl_nil, ?app_nil_r; reflexivity. }
+  destruct (sub c E_init_module) eqn:Im.
+  - cbn [app]. rewrite pexec_l_cons. unfold pseq. cbn [FragProg.pexec_s p_exc p_env p_saved p_log].
+    match goal with |- context [pexec_l call None g0 _ r ?s0 ?q] => destruct (HX r s0 q [(E_init_module, 0, Some VNone)] eq_refl) as (X1 & X2 & X3) end.
+    unfold psim. cbn [p_exc p_env p_log pr_exc pr_env pr_log] in *. repeat split; try assumption.
+    cbn [app] in *. rewrite !fl_cons, X3. reflexivity.
+  - cbn [app]. assert (H0 : fl [] = fl [(E_init_module, 0, Some VNone)]) by (rewrite fl_single, Im; reflexivity).
+    destruct (HX r sv [] _ H0) as (X1 & X2 & X3). unfold psim. cbn [pr_exc pr_env pr_log] in *. repeat split; try assumption.
+    rewrite fl_cons, Im. exact X3.
+Qed.
+
+
+(* ================================================================ the source program as it is (no rewriting at all) computes the reference results *)
+Section Plain.
+Variable call : callT.
+Variable callr : callR.
+Hypothesis call_ok : call_res call callr.
+Variable c0 : rcfg.                                (* whatever the run of the untouched source is given: it tests no guard *)
+Variable pol0 : list entry -> guard -> bool.
+Notation X_s := (FragProg.pexec_s binop cmpop unop truth cval is_and c0 pol0 fuel call).
+Notation X_l := (FragProg.pexec_l binop cmpop unop truth cval is_and c0 pol0 fuel call).
+Notation R_s := (pref_s callr).
+Notation R_l := (pref_l callr).
+Definition Rplain := rhs_plain binop cmpop unop truth cval is_and call callr call_ok.
+
+Lemma pexec_l_cons0 sc glob x u r sv pre : X_l sc glob (x :: u) r sv pre = pseq (X_s sc glob x r sv pre) (X_l sc glob u) pre.
+Proof. reflexivity. Qed.
+Lemma pexec_PIf0 sc glob n t b o r sv pre :
+  X_s sc glob (PIf n t b o) r sv pre =
+  let '(q, l) := eval_e t (look sc glob r) in
+  match q with
+  | Ok vt => let a := X_l sc glob (if truth vt then b else o) r sv (pre ++ l) in
+             {| p_exc := p_exc a; p_env := p_env a; p_saved := p_saved a; p_log := l ++ p_log a |}
+  | Err e => {| p_exc := Some (PO (FX e)); p_env := r; p_saved := sv; p_log := l |}
+  end.
+Proof. reflexivity. Qed.
+Definition ploop0 (sc : scope) (glob : env) (t : texpr) (b o : list pstmt) :=
+  fix loop (f : nat) (r : env) (saved : val) (pre : list entry) {struct f} : pres :=
+    match f with
+    | O => {| p_exc := Some (PO FFuel); p_env := r; p_saved := saved; p_log := [] |}
+    | S f' =>
+        let '(q, lt) := eval_e t (look sc glob r) in
+        match q with
+        | Err e => {| p_exc := Some (PO (FX e)); p_env := r; p_saved := saved; p_log := lt |}
+        | Ok vt =>
+            if truth vt then
+              let a := X_l sc glob b r saved (pre ++ lt) in
+              match p_exc a with
+              | Some PBrk => {| p_exc := None; p_env := p_env a; p_saved := p_saved a; p_log := lt ++ p_log a |}
+              | None | Some PCnt =>
+                  let z := loop f' (p_env a) (p_saved a) (pre ++ lt ++ p_log a) in
+                  {| p_exc := p_exc z; p_env := p_env z; p_saved := p_saved z; p_log := lt ++ p_log a ++ p_log z |}
+              | Some _ => {| p_exc := p_exc a; p_env := p_env a; p_saved := p_saved a; p_log := lt ++ p_log a |}
+              end
+            else let a := X_l sc glob o r saved (pre ++ lt) in
+                 {| p_exc := p_exc a; p_env := p_env a; p_saved := p_saved a; p_log := lt ++ p_log a |}
+        end
+    end.
+Lemma pexec_PWhile0 sc glob n t b o r sv pre : X_s sc glob (PWhile n t b o) r sv pre = ploop0 sc glob t b o fuel r sv pre.
+Proof. reflexivity. Qed.
+
+Definition pres_eq (a : pres) (b : prres) : Prop := p_exc a = pr_exc b /\ p_env a = pr_env b.
+Definition pplain_ok (s : pstmt) : Prop := psrc_t s = true -> forall q m sc glob r sv p p', pres_eq (X_s sc glob s r sv p) (R_s q m sc glob s r p').
+
+Lemma pplain_list u : Forall pplain_ok u -> forallb psrc_t u = true -> forall q m sc glob r sv p p',
+  pres_eq (X_l sc glob u r sv p) (R_l q m sc glob u r p').
+Proof.
+  induction 1 as [|x u Hx _ IH]; intros Hs q m sc glob r sv p p'.
+  - split; reflexivity.
+  - cbn [forallb] in Hs. apply andb_true_iff in Hs as [Hsx Hs]. rewrite pexec_l_cons0, pref_l_cons.
+    destruct (Hx Hsx q m sc glob r sv p p') as (E1 & E2). unfold pseq, prseq. rewrite E1.
+    destruct (pr_exc (R_s q m sc glob x r p')) eqn:Ex.
+    + unfold pres_eq. rewrite Ex. split; assumption.
+    + rewrite E2. destruct (IH Hs q m sc glob (pr_env (R_s q m sc glob x r p')) (p_saved (X_s sc glob x r sv p))
+                  (p ++ p_log (X_s sc glob x r sv p)) (p' ++ pr_log (R_s q m sc glob x r p'))) as (F1 & F2).
+      split; assumption.
+Qed.
+
+Lemma pplain_loop q sc glob n t b o : src_e t = true -> Forall pplain_ok b -> Forall pplain_ok o ->
+  forallb psrc_b b = true -> forallb psrc_b o = true ->
+  forall f r sv p p', pres_eq (ploop0 sc glob t b o f r sv p) (prloop callr q sc glob n t b o f r p').
+Proof.
+  intros Ht Fb Fo Hb Ho. induction f as [|f IH]; intros r sv p p'.
+  - split; reflexivity.
+  - cbn [ploop0 prloop]. rewrite (eval_src t _ Ht). destruct (ref_e t (look sc glob r)) as [[vt|e] l]; cbn [fst snd]; [|split; reflexivity].
+    destruct (truth vt).
+    + match goal with |- context [R_l ?Q false sc glob b r ?P] =>
+        destruct (pplain_list b Fb (psrc_b_t b Hb) Q false sc glob r sv (p ++ []) P) as (A1 & A2);
+        set (A := X_l sc glob b r sv (p ++ [])) in *; set (B := R_l Q false sc glob b r P) in * end.
+      rewrite A1.
+      destruct (pr_exc B) as [[x| |]|] eqn:Ex; try (split; cbn [p_exc p_env pr_exc pr_env]; [reflexivity|exact A2]);
+        (match goal with |- context [prloop callr q sc glob n t b o f (pr_env B) ?P] => destruct (IH (p_env A) (p_saved A) (p ++ [] ++ p_log A) P) as (J1 & J2) end;
+         rewrite A2 in J1, J2; split; cbn [p_exc p_env pr_exc pr_env]; rewrite ?A2; assumption).
+    + match goal with |- context [R_l ?Q false sc glob o r ?P] => destruct (pplain_list o Fo (psrc_b_t o Ho) Q false sc glob r sv (p ++ []) P) as (A1 & A2) end.
+      split; cbn [p_exc p_env pr_exc pr_env]; assumption.
+Qed.
+
+Theorem pplain_stmt : forall s, pplain_ok s.
+Proof.
+  induction s using pstmt_ind'; intros Hs q m sc glob r sv pa pb; try discriminate Hs; cbn [psrc_t psrc_b] in Hs; rewrite pref_unfold; cbn [pid pbody_of].
+  - pose proof (Rplain v Hs q (look sc glob r) (globs sc glob r) sv pa (pb ++ fsay q [(E_before_stmt, n, Some VNone)])) as A1. cbn [FragProg.pexec_s].
+    destruct (eval_r call _ _ v sv pa) as [[x sv'] l]. destruct (ref_r callr q _ _ v _) as [x' l']. cbn [fst snd] in A1. subst x'. split; reflexivity.
+  - pose proof (Rplain v Hs q (look sc glob r) (globs sc glob r) sv pa
+                  ((pb ++ fsay q [(E_before_stmt, n, Some VNone)]) ++ fsay q [(E_before_assign_rhs, rid v, None)])) as A1. cbn [FragProg.pexec_s].
+    destruct (eval_r call _ _ v sv pa) as [[x sv'] l]. destruct (ref_r callr q _ _ v _) as [x' l']. cbn [fst snd] in A1. subst x'.
+    destruct x; split; reflexivity.
+  - split; reflexivity.
+  - apply andb_true_iff in Hs as [Hs Ho]. apply andb_true_iff in Hs as [Ht Hb].
+    rewrite pexec_PIf0, (eval_src t _ Ht). destruct (ref_e t (look sc glob r)) as [[vt|e] l]; cbn [fst snd]; [|split; reflexivity].
+    assert (HB : forall p p', pres_eq (X_l sc glob (if truth vt then b else o) r sv p) (R_l q false sc glob (if truth vt then b else o) r p')).
+    { intros p p'. destruct (truth vt); [apply (pplain_list b H (psrc_b_t b Hb))|apply (pplain_list o H0 (psrc_b_t o Ho))]. }
+    match goal with |- context [R_l q false sc glob _ r ?P] => destruct (HB (pa ++ []) P) as (B1 & B2) end.
+    split; cbn [p_exc p_env pr_exc pr_env]; assumption.
+  - apply andb_true_iff in Hs as [Hs Ho]. apply andb_true_iff in Hs as [Ht Hb].
+    rewrite pexec_PWhile0.
+    match goal with |- context [prloop callr q sc glob n t b o fuel r ?P] => destruct (pplain_loop q sc glob n t b o Ht H H0 Hb Ho fuel r sv pa P) as (B1 & B2) end.
+    split; cbn [p_exc p_env pr_exc pr_env]; assumption.
+  - split; reflexivity.
+  - split; reflexivity.
+  - destruct v as [v|]; [|split; reflexivity].
+    pose proof (Rplain v Hs q (look sc glob r) (globs sc glob r) sv pa
+                  ((pb ++ fsay q [(E_before_stmt, n, Some VNone)]) ++ fsay q [(E_before_return, rid v, None)])) as A1. cbn [FragProg.pexec_s].
+    destruct (eval_r call _ _ v sv pa) as [[x sv'] l]. destruct (ref_r callr q _ _ v _) as [x' l']. cbn [fst snd] in A1. subst x'. split; reflexivity.
+  - split; reflexivity.
+Qed.
+End Plain.
+
+Variable c0 : rcfg.
+Variable pol0 : list entry -> guard -> bool.
+Lemma pplain_all call callr : call_res call callr -> forall u, Forall (pplain_ok call callr c0 pol0) u.
+Proof. intros Hc u. apply Forall_forall. intros s _. apply pplain_stmt. exact Hc. Qed.
+
+Lemma plain_step ftab call callr : tab_ok ftab -> call_res call callr ->
+  call_res (pdo_call binop cmpop unop truth cval is_and c0 pol0 fuel ftab call) (pdo_callr binop cmpop unop truth cval is_and c pol fuel ge ftab callr).
+Proof.
+  intros Ht Hc f vs glob sv p p'. unfold pdo_call, pdo_callr.
+  destruct (ftab f) as [[ps body]|] eqn:Ef; [|reflexivity].
+  destruct (Nat.eqb (length ps) (length vs)); [|reflexivity]. cbn [fst snd].
+  match goal with |- context [pref_l callr ?Q false ?SC glob body ?R ?P] =>
+    destruct (pplain_list call callr c0 pol0 body (pplain_all call callr Hc body) (psrc_b_t body (Ht f ps body Ef)) Q false SC glob R sv p P) as [B1 B2] end.
+  rewrite B1. reflexivity.
+Qed.
+
+Theorem plain_calls ftab : tab_ok ftab -> forall d,
+  call_res (pcall binop cmpop unop truth cval is_and c0 pol0 fuel ftab d) (pcallr binop cmpop unop truth cval is_and c pol fuel ge ftab d).
+Proof.
+  intros Ht. induction d as [|d IH].
+  - intros f vs glob sv p p'. reflexivity.
+  - cbn [pcall pcallr]. apply plain_step; assumption.
+Qed.
+
+Theorem pplain_module m : forallb psrc_t m = true -> forall d r sv,
+  pres_eq (prun binop cmpop unop truth cval is_and c0 pol0 fuel d m r sv) (pref_module binop cmpop unop truth cval is_and c pol fuel ge d m r).
+Proof.
+  intros Hs d r sv. unfold prun, FragProg.pref_module.
+  pose proof (plain_calls (pdefs_of m) (pdefs_src m Hs) d) as Hc.
+  match goal with |- context [pref_l ?CR false true None ?G m r ?P] =>
+    destruct (pplain_list _ CR c0 pol0 m (pplain_all _ CR Hc m) Hs false true None G r sv [] P) as [B1 B2] end.
+  split; cbn [pr_exc pr_env]; assumption.
+Qed.
+
+(* ================================================================ scoping: the instrumented copy of a body assigns no name the pristine copy does not assign
+   (so reading a function's local names off the pristine copy kept in the `except NameError` handler, as model/FragFun.v and model/FragProg.v do, gives
+   the set Python's compiler computes for the whole rewritten definition) *)
+Lemma passigned_PIf n t b o : passigned (PIf n t b o) = flat_map passigned b ++ flat_map passigned o.
+Proof. reflexivity. Qed.
+Lemma passigned_PBefore n tb own : passigned (PBefore n tb own) = flat_map passigned tb ++ flat_map passigned own.
+Proof. reflexivity. Qed.
+
+Lemma passigned_PWhile n t b o : passigned (PWhile n t b o) = flat_map passigned b ++ flat_map passigned o.
+Proof. reflexivity. Qed.
+Lemma passigned_ppr_list g' (u : list pstmt) : Forall (fun s => passigned (ppr g' s) = passigned s) u -> flat_map passigned (map (ppr g') u) = flat_map passigned u.
+Proof. induction 1 as [|x u Hx _ IH]; [reflexivity|]. cbn [map flat_map]. rewrite Hx, IH. reflexivity. Qed.
+Lemma passigned_ppr g' : forall s, passigned (ppr g' s) = passigned s.
+Proof.
+  induction s using pstmt_ind'; cbn [ppr]; try reflexivity.
+  - rewrite !passigned_PIf, (passigned_ppr_list g' b H), (passigned_ppr_list g' o H0). reflexivity.
+  - destruct g'; [change (passigned (PWhileG n (GTest n) t t (map (ppr true) b) (map (ppr true) o)))
+                    with (flat_map passigned (map (ppr true) b) ++ flat_map passigned (map (ppr true) o))|];
+      rewrite ?passigned_PWhile, (passigned_ppr_list _ b H), (passigned_ppr_list _ o H0); reflexivity.
+Qed.
+Lemma passigned_ppr_map g' u : flat_map passigned (map (ppr g') u) = flat_map passigned u.
+Proof. apply passigned_ppr_list. apply Forall_forall. intros s _. apply passigned_ppr. Qed.
+
+Definition asg_ok (s : pstmt) : Prop := psrc_t s = true -> forall m x, In x (flat_map passigned (pis c ge m s)) -> In x (passigned s).
+
+Lemma asg_list u : Forall asg_ok u -> forallb psrc_t u = true -> forall m x, In x (flat_map passigned (flat_map (pis c ge m) u)) -> In x (flat_map passigned u).
+Proof.
+  induction 1 as [|s u Hs _ IH]; intros Hu m x Hin; [exact Hin|].
+  cbn [forallb] in Hu. apply andb_true_iff in Hu as [H1 H2]. cbn [flat_map] in Hin |- *. rewrite flat_map_app in Hin.
+  apply in_app_or in Hin as [Hin|Hin]; apply in_or_app; [left; exact (Hs H1 m x Hin)|right; exact (IH H2 m x Hin)].
+Qed.
+
+Lemma asg_assemble s : (forall x, In x (passigned (pmain_of s)) -> In x (passigned s)) -> forall m x, In x (flat_map passigned (pis c ge m s)) -> In x (passigned s).
+Proof.
+  intros HM m x. rewrite pis_unfold. cbv zeta.
+  assert (HO : In x (flat_map passigned (pown_of m s)) -> In x (passigned s)).
+  { unfold pown_of, pmain_and_after. destruct s; destruct (pwants m); try destruct (p_is_expr _ && m); cbn [flat_map passigned app]; rewrite ?app_nil_r;
+      try (intros HF; exact (False_ind _ HF)); try apply HM. }
+  assert (HE : In x (flat_map passigned (if sub c E_before_stmt then [PBefore (pid s) (pthunk_branch m s) (pown_of m s)] else pown_of m s)) -> In x (passigned s)).
+  { destruct (sub c E_before_stmt); [|exact HO]. cbn [flat_map]. rewrite passigned_PBefore, app_nil_r. intros H. apply in_app_or in H as [H|H]; [|exact (HO H)].
+    unfold pthunk_branch, pmain_and_after in H. destruct (pwants m); cbn in H; destruct m; cbn in H; destruct H. }
+  destruct (m && sub c E_after_module_stmt); [|exact HE]. rewrite flat_map_app. intros H. apply in_app_or in H as [H|H]; [exact (HE H)|destruct H].
+Qed.
+
+Theorem passigned_pis : forall s, asg_ok s.
+Proof.
+  induction s using pstmt_ind'; intros Hs; try discriminate Hs; cbn [psrc_t psrc_b] in Hs; apply asg_assemble; cbn [pmain_of]; try (intros x Hx; exact Hx).
+  - apply andb_true_iff in Hs as [Hs Ho]. apply andb_true_iff in Hs as [Ht Hb]. intros x. rewrite !passigned_PIf. intros Hx.
+    apply in_app_or in Hx as [Hx|Hx]; apply in_or_app; [left; exact (asg_list b H (psrc_b_t b Hb) false x Hx)|right; exact (asg_list o H0 (psrc_b_t o Ho) false x Hx)].
+  - (* while: the instrumented body and the pristine copy kept next to it *)
+    apply andb_true_iff in Hs as [Hs Ho]. apply andb_true_iff in Hs as [Ht Hb]. intros x. rewrite passigned_PWhile.
+    assert (HA : In x (flat_map passigned (W_after n b)) -> In x (flat_map passigned b)).
+    { unfold W_after, W_b'. destruct (sub c E_after_while_loop_iter).
+      - cbn [flat_map]. rewrite app_nil_r.
+        change (passigned (PTry (flat_map (pis c ge false) b) [PEmit E_after_while_loop_iter n None (Some (if ge then Some (GBody n) else None))]))
+          with (flat_map passigned (flat_map (pis c ge false) b) ++ flat_map passigned [PEmit E_after_while_loop_iter n None (Some (if ge then Some (GBody n) else None))]).
+        cbn [flat_map passigned app]. rewrite app_nil_r. exact (asg_list b H (psrc_b_t b Hb) false x).
+      - exact (asg_list b H (psrc_b_t b Hb) false x). }
+    assert (HB : In x (flat_map passigned (W_body n b)) -> In x (flat_map passigned b)).
+    { unfold W_body.
+      set (IG := [PGuardIf (GBody n) (if sub c E_before_while_loop_body then Some n else None) (W_after n b) (map (ppr ge) b)]).
+      set (IN := (if sub c E_before_while_loop_body then [PEmit E_before_while_loop_body n (Some (RExp (XConst 0 (SBool true)))) None] else []) ++ W_after n b).
+      destruct ge_cases as [E|E].
+      - replace (if ge then IG else IN) with IG by (rewrite E; reflexivity). subst IG IN. cbn [flat_map]. rewrite app_nil_r.
+        change (passigned (PGuardIf (GBody n) (if sub c E_before_while_loop_body then Some n else None) (W_after n b) (map (ppr ge) b)))
+          with (flat_map passigned (W_after n b) ++ flat_map passigned (map (ppr ge) b)).
+        rewrite passigned_ppr_map. intros Hx. apply in_app_or in Hx as [Hx|Hx]; [exact (HA Hx)|exact Hx].
+      - replace (if ge then IG else IN) with IN by (rewrite E; reflexivity). subst IG IN. rewrite flat_map_app. intros Hx. apply in_app_or in Hx as [Hx|Hx]; [|exact (HA Hx)].
+        destruct (sub c E_before_while_loop_body); destruct Hx. }
+    unfold W_main. intros Hx.
+    assert (Hx' : In x (flat_map passigned (W_body n b) ++ flat_map passigned (W_o' o))) by (destruct ge; exact Hx).
+    apply in_app_or in Hx' as [Hx'|Hx']; apply in_or_app; [left; exact (HB Hx')|right; exact (asg_list o H0 (psrc_b_t o Ho) false x Hx')].
+  - destruct v; intros x Hx; exact Hx.
+Qed.
+
+Corollary passigned_instr_sub body : forallb psrc_b body = true -> forall x, In x (passigned_l (flat_map (pis c ge false) body)) -> In x (passigned_l body).
+Proof.
+  intros Hb x. apply asg_list; [|exact (psrc_b_t body Hb)]. apply Forall_forall. intros s _. apply passigned_pis.
+Qed.
+End ProgProofs.
+
+(* ================================================================ the statements the properties quote *)
+Section FinalProg.
+Variable binop : N -> val -> val -> res val.
+Variable cmpop : N -> val -> val -> res bool.
+Variable unop : N -> val -> res val.
+Variable truth : val -> bool.
+Variable cval : scalar -> val.
+Variable is_and : N -> bool.
+Variable fuel : nat.
+Notation X := (fun c pol => prun binop cmpop unop truth cval is_and c pol fuel).
+Notation RM := (fun c pol => pref_module binop cmpop unop truth cval is_and c pol fuel).
+
+(* the instrumented program, whatever is subscribed and however the function guards are flipped, computes what the untouched source computes *)
+Theorem prog_plain c ge pol c0 pol0 m d r sv sv' : forallb psrc_t m = true ->
+  p_exc (X c pol d (pinstr_module c ge m) r sv) = p_exc (X c0 pol0 d m r sv') /\
+  p_env (X c pol d (pinstr_module c ge m) r sv) = p_env (X c0 pol0 d m r sv').
+Proof.
+  intros Hs. destruct (pmodule_sim binop cmpop unop truth cval is_and c pol fuel ge m Hs d r sv) as (A1 & A2 & _).
+  destruct (pplain_module binop cmpop unop truth cval is_and c pol fuel ge c0 pol0 m Hs d r sv') as (B1 & B2).
+  rewrite A1, A2, B1, B2. split; reflexivity.
+Qed.
+
+Theorem prog_results c1 ge1 pol1 c2 ge2 pol2 m d r sv sv' : forallb psrc_t m = true ->
+  p_exc (X c1 pol1 d (pinstr_module c1 ge1 m) r sv) = p_exc (X c2 pol2 d (pinstr_module c2 ge2 m) r sv') /\
+  p_env (X c1 pol1 d (pinstr_module c1 ge1 m) r sv) = p_env (X c2 pol2 d (pinstr_module c2 ge2 m) r sv').
+Proof.
+  intros Hs. destruct (prog_plain c1 ge1 pol1 c1 pol1 m d r sv sv Hs) as (A1 & A2). destruct (prog_plain c2 ge2 pol2 c1 pol1 m d r sv' sv Hs) as (B1 & B2).
+  rewrite A1, A2, B1, B2. split; reflexivity.
+Qed.
+
+(* ... and delivers the reference stream: every event of the fragment once per dynamic occurrence, in evaluation order, gated by the function guards *)
+Theorem prog_stream c ge pol m d r sv : forallb psrc_t m = true ->
+  filter_log c (p_log (X c pol d (pinstr_module c ge m) r sv)) = filter_log c (pr_log (RM c pol ge d m r)).
+Proof. intros Hs. exact (proj2 (proj2 (pmodule_sim binop cmpop unop truth cval is_and c pol fuel ge m Hs d r sv))). Qed.
+End FinalProg.
